@@ -15,6 +15,10 @@ import EzdxfVerif.Gen.Matrix44Py
 import EzdxfVerif.Gen.Matrix44Pyx
 import EzdxfVerif.Gen.UcsPy
 import EzdxfVerif.Gen.UcsPyx
+import EzdxfVerif.Gen.UcsAttrs
+import EzdxfVerif.Gen.ConstructPy
+import EzdxfVerif.Gen.ConstructPyx
+import EzdxfVerif.Model.UcsMachine
 import Mathlib.Tactic.Ring
 import Mathlib.Tactic.FieldSimp
 import Mathlib.Tactic.Linarith
@@ -22,7 +26,7 @@ import Mathlib.Tactic.Positivity
 import Mathlib.Tactic.LinearCombination
 
 namespace EzdxfVerif.Props.C11
-open EzdxfVerif.Rat3 EzdxfVerif.Gen
+open EzdxfVerif.Rat3 EzdxfVerif.Gen EzdxfVerif.UcsMachine
 
 /-! ## 1. Composition: `A * B` is "A then B" (row-vector convention) -/
 
@@ -938,5 +942,1721 @@ theorem twins_agree_isclose (a b : V3) (p q : V2) :
     · exact h
     · exfalso; have := h.2; norm_num at this
   simp only [VectorPyx.v3isclose, VectorPy.v3isclose, VectorPyx.v2isclose, VectorPy.v2isclose, key2, and_self]
+
+/-! ## 11. UCS as a state machine: laws about method SEQUENCES on one object -/
+
+private theorem ite_ind {α : Type} (P : α → Prop) (c : Prop) [Decidable c] (a b : α) (ha : c → P a) (hb : ¬c → P b) :
+    P (ite c a b) := by
+  by_cases h : c
+  · rw [if_pos h]; exact ha h
+  · rw [if_neg h]; exact hb h
+
+private theorem ite_neg_ind {α : Type} (P : α → Prop) (c : Prop) [Decidable c] (a b : α) (hc : ¬ c) (hb : P b) :
+    P (ite c a b) := by
+  rw [if_neg hc]; exact hb
+
+private theorem ite_map {α β : Type} {c : Prop} [Decidable c] (f : α → β) (a b : Except PyErr β) (a' b' : Except PyErr α)
+    (ha : a = Except.map f a') (hb : b = Except.map f b') : ite c a b = Except.map f (ite c a' b') := by
+  by_cases h : c
+  · rw [if_pos h, if_pos h]; exact ha
+  · rw [if_neg h, if_neg h]; exact hb
+
+/-- the complete instance state, re-extracted from the AST of ucs.py on every run: a UCS object is one matrix, an OCS
+    object a flag and a matrix.  (Any cached derived attribute added to either class makes this false.) -/
+theorem ucs_instance_state :
+    UcsAttrs.ucsInstanceAttrs = ["matrix"] ∧ UcsAttrs.ocsInstanceAttrs = ["transform", "matrix"] := by
+  decide +kernel
+
+/-- the closed instance state of the value classes (`__slots__` of the Python twin, cdef attributes in the .pxd of the
+    Cython twin; regenerated): a Matrix44 is its 16 cells, a vector its components - nothing else can be stored on them -/
+theorem value_classes_state :
+    UcsAttrs.pyMatrix44Slots = ["_matrix"] ∧ UcsAttrs.pyxMatrix44Fields = ["m"]
+    ∧ UcsAttrs.pyVec3Slots = ["_x", "_y", "_z"] ∧ UcsAttrs.pyxVec3Fields = ["x", "y", "z"]
+    ∧ UcsAttrs.pyVec2Slots = ["x", "y"] ∧ UcsAttrs.pyxVec2Fields = ["x", "y"] := by
+  decide +kernel
+
+/-- what each mutator does to the state: `transform(m)` multiplies from the right (row-vector convention),
+    `shift(d)` adds to the origin row, `moveto(o)` overwrites it; no other cell changes; both linkings agree -/
+theorem ucs_step_spec (s m : M44) (d o : V3) :
+    step s (.transform m) = M44.mul s m
+    ∧ (step s (.shift d)).origin = V3.add s.origin d ∧ (step s (.moveto o)).origin = o
+    ∧ (∀ op, (∀ m, op ≠ .transform m) →
+        (step s op).ux = s.ux ∧ (step s op).uy = s.uy ∧ (step s op).uz = s.uz
+        ∧ (step s op).m3 = s.m3 ∧ (step s op).m7 = s.m7 ∧ (step s op).m11 = s.m11 ∧ (step s op).m15 = s.m15)
+    ∧ (∀ op, stepPy s op = step s op) := by
+  refine ⟨rfl, rfl, rfl, ?_, ?_⟩
+  · intro op h
+    cases op with
+    | transform m => exact absurd rfl (h m)
+    | shift d => exact ⟨rfl, rfl, rfl, rfl, rfl, rfl, rfl⟩
+    | moveto o => exact ⟨rfl, rfl, rfl, rfl, rfl, rfl, rfl⟩
+  · intro op; cases op <;> rfl
+
+/-- queries do not change the state (frame condition, from the regenerated `(query, ucs.matrix)` kernels):
+    whenever `to_ocs` returns at all, the object's matrix is what it was -/
+theorem ucs_query_frame (s : M44) (p : V3) (r1 r2 r3 : Rat) :
+    UcsPyx.ucsToWcsFrame s p = s ∧ UcsPy.ucsToWcsFrame s p = s
+    ∧ (∀ x, UcsPyx.ucsToOcsFrame s p r1 r2 r3 = .ok x → x = s)
+    ∧ (∀ x, UcsPy.ucsToOcsFrame s p r1 r2 r3 = .ok x → x = s) := by
+  let P : Except PyErr M44 → Prop := fun y => ∀ x, y = .ok x → x = s
+  have hok : P (.ok s) := fun x h => by cases h; rfl
+  have herr : P (.error PyErr.zeroDivision) := fun x h => by cases h
+  refine ⟨rfl, rfl, ?_, ?_⟩
+  · show P _
+    unfold UcsPyx.ucsToOcsFrame
+    refine ite_ind P _ _ _ (fun _ => herr) (fun _ => ?_)
+    refine ite_ind P _ _ _ (fun _ => ?_) (fun _ => hok)
+    refine ite_ind P _ _ _ (fun _ => ?_) (fun _ => ?_) <;>
+    · refine ite_ind P _ _ _ (fun _ => herr) (fun _ => ?_)
+      exact ite_ind P _ _ _ (fun _ => herr) (fun _ => hok)
+  · show P _
+    unfold UcsPy.ucsToOcsFrame
+    refine ite_ind P _ _ _ (fun _ => herr) (fun _ => ?_)
+    refine ite_ind P _ _ _ (fun _ => ?_) (fun _ => hok)
+    refine ite_ind P _ _ _ (fun _ => ?_) (fun _ => ?_) <;>
+    · refine ite_ind P _ _ _ (fun _ => herr) (fun _ => ?_)
+      exact ite_ind P _ _ _ (fun _ => herr) (fun _ => hok)
+
+private theorem foldl_mul_assoc (s acc : M44) (ms : List M44) :
+    M44.mul s (ms.foldl M44.mul acc) = ms.foldl M44.mul (M44.mul s acc) := by
+  induction ms generalizing acc with
+  | nil => rfl
+  | cons m rest ih => simp only [List.foldl_cons]; rw [ih, mul_assoc]
+
+private theorem chain_cons (m : M44) (ms : List M44) : M44.chain (m :: ms) = M44.mul m (M44.chain ms) := by
+  unfold M44.chain
+  simp only [List.foldl_cons]
+  rw [foldl_mul_assoc, (mul_identity m).1, (mul_identity m).2]
+
+private theorem shift_is_mul (s : M44) (d : V3) (hs : M44.IsAffine s) :
+    UcsPyx.ucsShift s d = M44.mul s (translation d) := by
+  obtain ⟨h3, h7, h11, h15⟩ := hs
+  cases s
+  simp only at h3 h7 h11 h15
+  subst h3 h7 h11 h15
+  simp [UcsPyx.ucsShift, M44.mul, translation]
+
+private theorem translation_affine (d : V3) : M44.IsAffine (translation d) := by
+  simp [M44.IsAffine, translation]
+
+/-- a history of `transform` / `shift` calls on an affine UCS is ONE right multiplication: the state after the
+    history is `s · (m₁ · m₂ ⋯ mₙ)` (`shift(d)` counting as `translate(d)`), for histories of any length -/
+theorem ucs_history_is_product (s : M44) (ops : List Op) (ms : List M44) (hs : M44.IsAffine s)
+    (hm : matrices ops = some ms) (ha : ∀ m ∈ ms, M44.IsAffine m) :
+    run s ops = M44.mul s (M44.chain ms) ∧ M44.IsAffine (run s ops) := by
+  induction ops generalizing s ms with
+  | nil =>
+    simp only [matrices, Option.some.injEq] at hm
+    subst hm
+    exact ⟨((mul_identity s).1).symm, hs⟩
+  | cons op rest ih =>
+    simp only [matrices] at hm
+    cases hop : op.matrix? with
+    | none => simp [hop] at hm
+    | some m =>
+      cases hr : matrices rest with
+      | none => simp [hop, hr] at hm
+      | some ms' =>
+        simp only [hop, hr, Option.some.injEq] at hm
+        subst hm
+        have hstep : step s op = M44.mul s m := by
+          cases op with
+          | transform m' => simp only [Op.matrix?, Option.some.injEq] at hop; subst hop; rfl
+          | shift d => simp only [Op.matrix?, Option.some.injEq] at hop; subst hop; exact shift_is_mul s d hs
+          | moveto o => simp [Op.matrix?] at hop
+        have hma : M44.IsAffine m := ha m (by simp)
+        have hs' : M44.IsAffine (step s op) := by rw [hstep]; exact affine_mul _ _ hs hma
+        obtain ⟨h1, h2⟩ := ih (step s op) ms' hs' hr (fun x hx => ha x (by simp [hx]))
+        refine ⟨?_, h2⟩
+        show run (step s op) rest = _
+        rw [h1, hstep, chain_cons, mul_assoc]
+
+/-- consequently `ucs.transform(m₁) … .transform(mₙ).to_wcs(p)` = mₙ(… m₁(ucs.to_wcs(p))) for every history -/
+theorem ucs_history_to_wcs (s : M44) (ops : List Op) (ms : List M44) (p : V3) (hs : M44.IsAffine s)
+    (hm : matrices ops = some ms) (ha : ∀ m ∈ ms, M44.IsAffine m) :
+    UcsPyx.ucsToWcs (run s ops) p = ms.foldl (fun q m => Matrix44Pyx.transform m q) (UcsPyx.ucsToWcs s p) := by
+  rw [(ucs_history_is_product s ops ms hs hm ha).1]
+  show Matrix44Pyx.transform (Matrix44Pyx.mul s (M44.chain ms)) p = _
+  rw [transform_mul s _ p hs, ← chain_eq_fold, chain_transform ms _ ha]
+  rfl
+
+
+private theorem rigid_orthonormal (m : M44) (h : IsRigid m) : Orthonormal m := h.2
+
+private theorem rigid_mul (a b : M44) (ha : IsRigid a) (hb : IsRigid b) : IsRigid (M44.mul a b) := by
+  obtain ⟨haa, axx, ayy, azz, axy, axz, ayz⟩ := ha
+  obtain ⟨hba, bxx, byy, bzz, bxy, bxz, byz⟩ := hb
+  refine ⟨affine_mul a b haa hba, ?_⟩
+  obtain ⟨a3, a7, a11, a15⟩ := haa
+  obtain ⟨b3, b7, b11, b15⟩ := hba
+  simp only [V3.dot, M44.ux, M44.uy, M44.uz] at axx ayy azz axy axz ayz bxx byy bzz bxy bxz byz
+  simp only [V3.dot, M44.ux, M44.uy, M44.uz, M44.mul, a3, a7, a11, b3, b7, b11]
+  refine ⟨?_, ?_, ?_, ?_, ?_, ?_⟩
+  · linear_combination (a.m0 * a.m0) * bxx + (a.m1 * a.m1) * byy + (a.m2 * a.m2) * bzz + (2 * a.m0 * a.m1) * bxy
+      + (2 * a.m0 * a.m2) * bxz + (2 * a.m1 * a.m2) * byz + axx
+  · linear_combination (a.m4 * a.m4) * bxx + (a.m5 * a.m5) * byy + (a.m6 * a.m6) * bzz + (2 * a.m4 * a.m5) * bxy
+      + (2 * a.m4 * a.m6) * bxz + (2 * a.m5 * a.m6) * byz + ayy
+  · linear_combination (a.m8 * a.m8) * bxx + (a.m9 * a.m9) * byy + (a.m10 * a.m10) * bzz + (2 * a.m8 * a.m9) * bxy
+      + (2 * a.m8 * a.m10) * bxz + (2 * a.m9 * a.m10) * byz + azz
+  · linear_combination (a.m0 * a.m4) * bxx + (a.m1 * a.m5) * byy + (a.m2 * a.m6) * bzz + (a.m0 * a.m5 + a.m1 * a.m4) * bxy
+      + (a.m0 * a.m6 + a.m2 * a.m4) * bxz + (a.m1 * a.m6 + a.m2 * a.m5) * byz + axy
+  · linear_combination (a.m0 * a.m8) * bxx + (a.m1 * a.m9) * byy + (a.m2 * a.m10) * bzz + (a.m0 * a.m9 + a.m1 * a.m8) * bxy
+      + (a.m0 * a.m10 + a.m2 * a.m8) * bxz + (a.m1 * a.m10 + a.m2 * a.m9) * byz + axz
+  · linear_combination (a.m4 * a.m8) * bxx + (a.m5 * a.m9) * byy + (a.m6 * a.m10) * bzz + (a.m4 * a.m9 + a.m5 * a.m8) * bxy
+      + (a.m4 * a.m10 + a.m6 * a.m8) * bxz + (a.m5 * a.m10 + a.m6 * a.m9) * byz + ayz
+
+private theorem rigid_step (s : M44) (op : Op) (hs : IsRigid s) (hop : RigidOp op) : IsRigid (step s op) := by
+  cases op with
+  | transform m => exact rigid_mul s m hs hop
+  | shift d => exact hs
+  | moveto o => exact hs
+
+/-- INVARIANT over method sequences: a cartesian UCS stays cartesian (orthonormal axes, affine matrix) under every
+    history of `transform(rigid motion)`, `shift`, `moveto` calls, of any length -/
+theorem ucs_history_rigid (s : M44) (ops : List Op) (hs : IsRigid s) (h : ∀ op ∈ ops, RigidOp op) :
+    IsRigid (run s ops) := by
+  induction ops generalizing s with
+  | nil => exact hs
+  | cons op rest ih =>
+    exact ih (step s op) (rigid_step s op hs (h op (by simp))) (fun x hx => h x (by simp [hx]))
+
+/-- … hence, after ANY such history, `from_wcs` and `to_wcs` of the object are still mutually inverse
+    (points and directions) -/
+theorem ucs_history_roundtrip (s : M44) (ops : List Op) (p : V3) (hs : IsRigid s) (h : ∀ op ∈ ops, RigidOp op) :
+    UcsPyx.ucsFromWcs (run s ops) (UcsPyx.ucsToWcs (run s ops) p) = p
+    ∧ UcsPyx.ucsToWcs (run s ops) (UcsPyx.ucsFromWcs (run s ops) p) = p
+    ∧ UcsPyx.ucsDirectionFromWcs (run s ops) (UcsPyx.ucsDirectionToWcs (run s ops) p) = p
+    ∧ UcsPyx.ucsDirectionToWcs (run s ops) (UcsPyx.ucsDirectionFromWcs (run s ops) p) = p :=
+  ucs_roundtrip (run s ops) (rigid_orthonormal _ (ucs_history_rigid s ops hs h)) p
+
+example : IsRigid ⟨0, 1, 0, 0, -1, 0, 0, 0, 0, 0, 1, 0, 5, 6, 7, 1⟩ := by decide +kernel
+example : run ⟨0, 1, 0, 0, -1, 0, 0, 0, 0, 0, 1, 0, 5, 6, 7, 1⟩
+    [.transform ⟨1, 0, 0, 0, 0, 0, 1, 0, 0, -1, 0, 0, 1, 1, 1, 1⟩, .shift ⟨1, 2, 3⟩, .moveto ⟨0, 0, 9⟩, .shift ⟨1, 0, 0⟩]
+    = ⟨0, 0, 1, 0, -1, 0, 0, 0, 0, -1, 0, 0, 1, 0, 9, 1⟩ := by decide +kernel
+
+/-- `UCS.to_ocs(p)` on the state s is: build `OCS(s.uz)`, convert `s.to_wcs(p)` with it - a function of the CURRENT
+    matrix only (same for directions and the batch form) -/
+theorem ucs_to_ocs_spec (s : M44) (p : V3) (ps : List V3) (r1 r2 r3 : Rat) :
+    UcsPyx.ucsToOcs s p r1 r2 r3
+      = (UcsPyx.ocsInit s.uz r1 r2 r3).map (fun tm => UcsPyx.ocsFromWcs tm.1 tm.2 (UcsPyx.ucsToWcs s p))
+    ∧ UcsPyx.ucsDirToOcs s p r1 r2 r3
+      = (UcsPyx.ocsInit s.uz r1 r2 r3).map (fun tm => UcsPyx.ocsFromWcs tm.1 tm.2 (UcsPyx.ucsDirectionToWcs s p))
+    ∧ UcsPyx.ucsPointsToOcs s ps r1 r2 r3
+      = (UcsPyx.ocsInit s.uz r1 r2 r3).map (fun tm => ps.map fun q => UcsPyx.ocsFromWcs tm.1 tm.2 (UcsPyx.ucsToWcs s q)) := by
+  refine ⟨?_, ?_, ?_⟩
+  · unfold UcsPyx.ucsToOcs UcsPyx.ocsInit
+    refine ite_map _ _ _ _ _ rfl ?_
+    refine ite_map _ _ _ _ _ ?_ rfl
+    refine ite_map _ _ _ _ _ ?_ ?_ <;>
+    · refine ite_map _ _ _ _ _ rfl ?_
+      exact ite_map _ _ _ _ _ rfl rfl
+  · unfold UcsPyx.ucsDirToOcs UcsPyx.ocsInit
+    refine ite_map _ _ _ _ _ rfl ?_
+    refine ite_map _ _ _ _ _ ?_ rfl
+    refine ite_map _ _ _ _ _ ?_ ?_ <;>
+    · refine ite_map _ _ _ _ _ rfl ?_
+      exact ite_map _ _ _ _ _ rfl rfl
+  · unfold UcsPyx.ucsPointsToOcs UcsPyx.ocsInit
+    refine ite_map _ _ _ _ _ rfl ?_
+    refine ite_map _ _ _ _ _ ?_ rfl
+    refine ite_map _ _ _ _ _ ?_ ?_ <;>
+    · refine ite_map _ _ _ _ _ rfl ?_
+      exact ite_map _ _ _ _ _ rfl rfl
+
+/-- SEQUENCE LAW for `to_ocs`: after ANY history of in-place mutators, `ucs.to_ocs(p)` is the conversion of
+    `ucs.to_wcs(p)` by the OCS of the CURRENT z-axis, never raises for a non-degenerate z-axis, and
+    `OCS(ucs.uz).to_wcs(ucs.to_ocs(p)) = ucs.to_wcs(p)`.  r1, r2, r3 are the square roots `OCS.__init__` takes for
+    the extrusion `(run s ops).uz`. -/
+theorem ucs_history_to_ocs (s : M44) (ops : List Op) (p : V3) (r1 r2 r3 : Rat)
+    (h1 : 0 < r1) (e1 : r1 * r1 = UcsPyx.ocsInit_rad1 (run s ops).uz)
+    (h2 : 0 ≤ r2) (e2 : r2 * r2 = UcsPyx.ocsInit_rad2 (run s ops).uz r1)
+    (h3 : 0 ≤ r3) (e3 : r3 * r3 = UcsPyx.ocsInit_rad3 (run s ops).uz r1 r2) :
+    ∃ t m, UcsPyx.ocsInit (run s ops).uz r1 r2 r3 = .ok (t, m)
+      ∧ UcsPyx.ucsToOcs (run s ops) p r1 r2 r3 = .ok (UcsPyx.ocsFromWcs t m (UcsPyx.ucsToWcs (run s ops) p))
+      ∧ UcsPyx.ocsToWcs t m (UcsPyx.ocsFromWcs t m (UcsPyx.ucsToWcs (run s ops) p)) = UcsPyx.ucsToWcs (run s ops) p := by
+  obtain ⟨t, m, hm, _, _, hf, ht⟩ := ocs_axes (run s ops).uz r1 r2 r3 h1 e1 h2 e2 h3 e3
+  refine ⟨t, m, hm, ?_, ?_⟩
+  · rw [(ucs_to_ocs_spec (run s ops) p [] r1 r2 r3).1, hm]; rfl
+  · have ho : Orthonormal m := by
+      cases t
+      · rw [hf rfl]; decide +kernel
+      · exact (ht rfl).2.2.2.2.2.2.1
+    exact (ocs_roundtrip t m ho _).1
+
+/-- the radicands of the roots `to_ocs` takes are those of `OCS(s.uz)` -/
+theorem ucs_to_ocs_rads (s : M44) (p : V3) (r1 r2 : Rat) :
+    UcsPyx.ucsToOcs_rad1 s p = UcsPyx.ocsInit_rad1 s.uz ∧ UcsPyx.ucsToOcs_rad2 s p r1 = UcsPyx.ocsInit_rad2 s.uz r1
+    ∧ UcsPyx.ucsToOcs_rad3 s p r1 r2 = UcsPyx.ocsInit_rad3 s.uz r1 r2 := ⟨rfl, rfl, rfl⟩
+
+/-- REGENERATED method sequences on ONE object (`q` warms whatever the object might cache):
+    `ucs.to_ocs(q); ucs.transform(m); ucs.to_ocs(p)` is `to_ocs(p)` of the machine state after `transform(m)` -
+    with the roots the second call consumes: (r4, r5, r6) if the first `OCS(uz)` needed all three of its roots,
+    (r2, r3, r4) if it took the no-transform path after one root.  Same for the direction variant. -/
+theorem ucs_seq_transform_to_ocs (s m : M44) (q p : V3) (r1 r2 r3 r4 r5 r6 : Rat) (h1 : r1 ≠ 0) (h2 : r2 ≠ 0) (h3 : r3 ≠ 0) :
+    (UcsPyx.ucsSeqTransformToOcs s q m p r1 r2 r3 r4 r5 r6 = UcsPyx.ucsToOcs (step s (.transform m)) p r4 r5 r6
+      ∨ UcsPyx.ucsSeqTransformToOcs s q m p r1 r2 r3 r4 r5 r6 = UcsPyx.ucsToOcs (step s (.transform m)) p r2 r3 r4)
+    ∧ (UcsPyx.ucsSeqTransformDirToOcs s q m p r1 r2 r3 r4 r5 r6 = UcsPyx.ucsDirToOcs (step s (.transform m)) p r4 r5 r6
+      ∨ UcsPyx.ucsSeqTransformDirToOcs s q m p r1 r2 r3 r4 r5 r6 = UcsPyx.ucsDirToOcs (step s (.transform m)) p r2 r3 r4) := by
+  constructor
+  · let P : Except PyErr V3 → Prop := fun x =>
+      x = UcsPyx.ucsToOcs (step s (.transform m)) p r4 r5 r6 ∨ x = UcsPyx.ucsToOcs (step s (.transform m)) p r2 r3 r4
+    show P _
+    unfold UcsPyx.ucsSeqTransformToOcs
+    refine ite_neg_ind P _ _ _ h1 ?_
+    refine ite_ind P _ _ _ (fun _ => ?_) (fun _ => Or.inr rfl)
+    refine ite_ind P _ _ _ (fun _ => ?_) (fun _ => ?_) <;>
+    · refine ite_neg_ind P _ _ _ h2 ?_
+      refine ite_neg_ind P _ _ _ h3 ?_
+      exact Or.inl rfl
+  · let P : Except PyErr V3 → Prop := fun x =>
+      x = UcsPyx.ucsDirToOcs (step s (.transform m)) p r4 r5 r6 ∨ x = UcsPyx.ucsDirToOcs (step s (.transform m)) p r2 r3 r4
+    show P _
+    unfold UcsPyx.ucsSeqTransformDirToOcs
+    refine ite_neg_ind P _ _ _ h1 ?_
+    refine ite_ind P _ _ _ (fun _ => ?_) (fun _ => Or.inr rfl)
+    refine ite_ind P _ _ _ (fun _ => ?_) (fun _ => ?_) <;>
+    · refine ite_neg_ind P _ _ _ h2 ?_
+      refine ite_neg_ind P _ _ _ h3 ?_
+      exact Or.inl rfl
+
+/-- the other regenerated sequences: query, mutate, query again = the query on the machine state after the mutator
+    (`shift`/`moveto` keep the z-axis, so the second `to_ocs` consumes the same three roots); both linkings -/
+theorem ucs_seq_kernels (s m : M44) (q p d o : V3) (r1 r2 r3 : Rat) :
+    UcsPyx.ucsSeqTransformToWcs s q m p = UcsPyx.ucsToWcs (step s (.transform m)) p
+    ∧ UcsPyx.ucsSeqTransformFromWcs s q m p = UcsPyx.ucsFromWcs (step s (.transform m)) p
+    ∧ UcsPyx.ucsSeqShiftToWcs s q d p = UcsPyx.ucsToWcs (step s (.shift d)) p
+    ∧ UcsPy.ucsSeqShiftToWcs s q d p = UcsPy.ucsToWcs (stepPy s (.shift d)) p
+    ∧ UcsPyx.ucsSeqShiftToOcs s q d p r1 r2 r3 = UcsPyx.ucsToOcs (step s (.shift d)) p r1 r2 r3
+    ∧ UcsPyx.ucsSeqMovetoToOcs s q o p r1 r2 r3 = UcsPyx.ucsToOcs (step s (.moveto o)) p r1 r2 r3
+    ∧ UcsPy.ucsSeqShiftToOcs s q d p r1 r2 r3 = UcsPy.ucsToOcs (stepPy s (.shift d)) p r1 r2 r3
+    ∧ UcsPy.ucsSeqMovetoToOcs s q o p r1 r2 r3 = UcsPy.ucsToOcs (stepPy s (.moveto o)) p r1 r2 r3
+    ∧ (∀ t mm, UcsPyx.ocsSeqRoundtrip t mm p = UcsPyx.ocsToWcs t mm (UcsPyx.ocsFromWcs t mm p)) := by
+  refine ⟨rfl, rfl, rfl, rfl, rfl, rfl, rfl, rfl, ?_⟩
+  intro t mm
+  cases t <;> rfl
+
+/-! ## 12. Inverse, transpose and determinant laws; the error branch of `inverse()` -/
+
+/-- the model's value of `m.inverse()` when it exists (identity otherwise; only used under `det ≠ 0`) -/
+def invOr (m : M44) : M44 := match M44.inv m with | .ok i => i | .error _ => M44.identity
+
+/-- `inverse()` has exactly two outcomes: ZeroDivisionError, or a matrix that IS a two-sided inverse; which one is
+    decided by the determinant alone.  (Lean's `1 / 0 = 0` plays no role: the generated kernel tests `det = 0`
+    before it divides, as the Cython code raises on `1.0 / det`.) -/
+theorem inverse_total (m : M44) :
+    (Matrix44Pyx.determinant m = 0 ∧ Matrix44Pyx.inverse m = .error PyErr.zeroDivision)
+    ∨ (Matrix44Pyx.determinant m ≠ 0 ∧ ∃ i, Matrix44Pyx.inverse m = .ok i ∧ i = invOr m
+        ∧ M44.mul m i = M44.identity ∧ M44.mul i m = M44.identity) := by
+  by_cases h : Matrix44Pyx.determinant m = 0
+  · exact Or.inl ⟨h, inverse_singular m h⟩
+  · obtain ⟨i, hi, hr, hl⟩ := inverse_two_sided m h
+    refine Or.inr ⟨h, i, hi, ?_, hr, hl⟩
+    have := inverse_is_textbook m
+    rw [hi] at this
+    simp only [invOr, ← this]
+
+/-- a singular matrix HAS no inverse (neither right nor left): raising is the only correct answer -/
+theorem singular_no_inverse (m : M44) (h : Matrix44Pyx.determinant m = 0) :
+    (¬ ∃ j, M44.mul m j = M44.identity) ∧ (¬ ∃ j, M44.mul j m = M44.identity) := by
+  rw [determinant_is_textbook] at h
+  constructor <;>
+  · rintro ⟨j, hj⟩
+    have := det_mul m j
+    have h2 := det_mul j m
+    rw [hj, det_identity, h] at *
+    simp at *
+
+/-- `inverse()` raises ZeroDivisionError exactly for the matrices that have no inverse, and only that error -/
+theorem inverse_raises_iff (m : M44) :
+    (Matrix44Pyx.inverse m = .error PyErr.zeroDivision ↔ ¬ ∃ j, M44.mul m j = M44.identity)
+    ∧ (∀ e, Matrix44Pyx.inverse m = .error e → e = PyErr.zeroDivision)
+    ∧ ((∃ i, Matrix44Pyx.inverse m = .ok i) ↔ Matrix44Pyx.determinant m ≠ 0) := by
+  rcases inverse_total m with ⟨h0, he⟩ | ⟨h0, i, hi, _, hr, _⟩
+  · refine ⟨⟨fun _ => (singular_no_inverse m h0).1, fun _ => he⟩, ?_, ?_⟩
+    · intro e h; rw [he] at h; cases h; rfl
+    · constructor
+      · rintro ⟨i, hi⟩; rw [he] at hi; cases hi
+      · intro h; exact absurd h0 h
+  · refine ⟨⟨fun h => ?_, fun h => absurd ⟨i, hr⟩ h⟩, ?_, ?_⟩
+    · rw [hi] at h; cases h
+    · intro e h; rw [hi] at h; cases h
+    · exact ⟨fun _ => h0, fun _ => ⟨i, hi⟩⟩
+
+example : ¬ ∃ j, M44.mul ⟨1, 2, 3, 4, 2, 4, 6, 8, 1, 0, 0, 1, 0, 1, 0, 1⟩ j = M44.identity :=
+  (singular_no_inverse _ (by decide +kernel)).1
+
+private theorem det_ne (m : M44) : Matrix44Pyx.determinant m ≠ 0 ↔ M44.det m ≠ 0 := by rw [determinant_is_textbook]
+
+/-- (A·B)⁻¹ = B⁻¹·A⁻¹ : `(a * b).inverse()` is the REVERSED product of the inverses -/
+theorem inverse_mul (a b : M44) (ha : Matrix44Pyx.determinant a ≠ 0) (hb : Matrix44Pyx.determinant b ≠ 0) :
+    ∃ ia ib, Matrix44Pyx.inverse a = .ok ia ∧ Matrix44Pyx.inverse b = .ok ib
+      ∧ Matrix44Pyx.inverse (Matrix44Pyx.mul a b) = .ok (M44.mul ib ia) := by
+  obtain ⟨ia, hia, har, _⟩ := inverse_two_sided a ha
+  obtain ⟨ib, hib, hbr, _⟩ := inverse_two_sided b hb
+  have hab : Matrix44Pyx.determinant (M44.mul a b) ≠ 0 := by
+    rw [determinant_is_textbook, det_mul]
+    exact mul_ne_zero ((det_ne a).1 ha) ((det_ne b).1 hb)
+  obtain ⟨iab, hiab, _, _⟩ := inverse_two_sided (M44.mul a b) hab
+  refine ⟨ia, ib, hia, hib, ?_⟩
+  have : M44.mul ib ia = iab := by
+    apply inverse_unique (M44.mul a b) iab _ hiab
+    rw [mul_assoc, ← mul_assoc b ib ia, hbr, (mul_identity ia).2, har]
+  rw [this]; exact hiab
+
+private theorem chain_snoc (ms : List M44) (m : M44) : M44.chain (ms ++ [m]) = M44.mul (M44.chain ms) m := by
+  unfold M44.chain
+  rw [List.foldl_append]; rfl
+
+private theorem invOr_spec (m i : M44) (h : Matrix44Pyx.inverse m = .ok i) : invOr m = i := by
+  have := inverse_is_textbook m
+  rw [h] at this
+  simp only [invOr, ← this]
+
+/-- the inverse of `chain(m₁, …, mₙ)` is `chain(mₙ⁻¹, …, m₁⁻¹)`, for chains of any length of regular matrices;
+    in particular the chain is regular -/
+theorem inverse_chain (ms : List M44) (h : ∀ m ∈ ms, Matrix44Pyx.determinant m ≠ 0) :
+    Matrix44Pyx.inverse (Matrix44Pyx.chain ms) = .ok (M44.chain (ms.reverse.map invOr))
+    ∧ Matrix44Pyx.determinant (Matrix44Pyx.chain ms) ≠ 0 := by
+  rw [chain_eq_fold]
+  induction ms with
+  | nil => exact ⟨by decide +kernel, by decide +kernel⟩
+  | cons m rest ih =>
+    obtain ⟨ih1, ih2⟩ := ih (fun x hx => h x (by simp [hx]))
+    have hm := h m (by simp)
+    rw [chain_cons]
+    obtain ⟨im, ir, him, hir, hprod⟩ := inverse_mul m (M44.chain rest) hm ih2
+    rw [ih1] at hir
+    cases hir
+    refine ⟨?_, ?_⟩
+    · have : Matrix44Pyx.mul m (M44.chain rest) = M44.mul m (M44.chain rest) := rfl
+      rw [this] at hprod
+      rw [hprod, List.reverse_cons, List.map_append, List.map_cons, List.map_nil, chain_snoc, invOr_spec m im him]
+    · rw [determinant_is_textbook, det_mul]
+      exact mul_ne_zero ((det_ne m).1 hm) ((det_ne _).1 ih2)
+
+/-- inverse of the inverse, determinant of the inverse, inverse of the transpose -/
+theorem inverse_laws (m : M44) (h : Matrix44Pyx.determinant m ≠ 0) :
+    ∃ i, Matrix44Pyx.inverse m = .ok i ∧ Matrix44Pyx.inverse i = .ok m
+      ∧ M44.det i * M44.det m = 1
+      ∧ Matrix44Pyx.inverse (M44.transpose m) = .ok (M44.transpose i) := by
+  obtain ⟨i, hi, hr, hl⟩ := inverse_two_sided m h
+  have hdet : M44.det i * M44.det m = 1 := by rw [← det_mul, hl, det_identity]
+  have hi0 : Matrix44Pyx.determinant i ≠ 0 := by
+    rw [determinant_is_textbook]; intro h0; rw [h0] at hdet; simp at hdet
+  obtain ⟨ii, hii, _, _⟩ := inverse_two_sided i hi0
+  have hmi : m = ii := inverse_unique i ii m hii hl
+  have tmul : ∀ a b : M44, M44.transpose (M44.mul a b) = M44.mul (M44.transpose b) (M44.transpose a) := by
+    intro a b
+    simp only [M44.transpose, M44.mul, M44.mk.injEq]
+    refine ⟨?_, ?_, ?_, ?_, ?_, ?_, ?_, ?_, ?_, ?_, ?_, ?_, ?_, ?_, ?_, ?_⟩ <;> ring
+  have ht0 : Matrix44Pyx.determinant (M44.transpose m) ≠ 0 := by
+    have : M44.det (M44.transpose m) = M44.det m := by simp only [M44.det, M44.det3, M44.transpose]; ring
+    rw [determinant_is_textbook, this]; exact (det_ne m).1 h
+  obtain ⟨it, hit, _, _⟩ := inverse_two_sided (M44.transpose m) ht0
+  have hti : M44.transpose i = it := by
+    apply inverse_unique (M44.transpose m) it _ hit
+    rw [← tmul, hl]; rfl
+  refine ⟨i, hi, by rw [hmi]; exact hii, hdet, by rw [hti]; exact hit⟩
+
+/-- transpose laws: (A·B)ᵀ = Bᵀ·Aᵀ, det Aᵀ = det A, Iᵀ = I (involution: `transpose_is_textbook`) -/
+theorem transpose_laws (a b : M44) :
+    M44.transpose (M44.mul a b) = M44.mul (M44.transpose b) (M44.transpose a)
+    ∧ M44.det (M44.transpose a) = M44.det a ∧ M44.transpose M44.identity = M44.identity
+    ∧ Matrix44Pyx.transpose (Matrix44Pyx.mul a b) = Matrix44Pyx.mul (Matrix44Pyx.transpose b) (Matrix44Pyx.transpose a) := by
+  have tmul : M44.transpose (M44.mul a b) = M44.mul (M44.transpose b) (M44.transpose a) := by
+    simp only [M44.transpose, M44.mul, M44.mk.injEq]
+    refine ⟨?_, ?_, ?_, ?_, ?_, ?_, ?_, ?_, ?_, ?_, ?_, ?_, ?_, ?_, ?_, ?_⟩ <;> ring
+  refine ⟨tmul, ?_, rfl, tmul⟩
+  simp only [M44.det, M44.det3, M44.transpose]; ring
+
+/-- the inverse of an affine matrix is affine and undoes `transform` (both orders) and `transform_direction` -/
+theorem inverse_affine (m : M44) (v : V3) (ha : M44.IsAffine m) (h : Matrix44Pyx.determinant m ≠ 0) :
+    ∃ i, Matrix44Pyx.inverse m = .ok i ∧ M44.IsAffine i
+      ∧ Matrix44Pyx.transform i (Matrix44Pyx.transform m v) = v
+      ∧ Matrix44Pyx.transform m (Matrix44Pyx.transform i v) = v
+      ∧ Matrix44Pyx.transformDirection i (Matrix44Pyx.transformDirection m v) = v := by
+  obtain ⟨i, hi, hr, hl⟩ := inverse_two_sided m h
+  have hia : M44.IsAffine i := by
+    obtain ⟨h3, h7, h11, h15⟩ := ha
+    have := inverse_is_textbook m
+    rw [hi] at this
+    have hd : M44.det m ≠ 0 := (det_ne m).1 h
+    simp only [M44.inv, if_neg hd, Except.ok.injEq] at this
+    subst this
+    have hde : M44.det3 m.m0 m.m1 m.m2 m.m4 m.m5 m.m6 m.m8 m.m9 m.m10 = M44.det m := by
+      simp only [M44.det, M44.det3, h3, h7, h11, h15]; ring
+    refine ⟨?_, ?_, ?_, ?_⟩
+    · simp only [M44.scale, M44.adj, M44.det3, h3, h7, h11]; ring
+    · simp only [M44.scale, M44.adj, M44.det3, h3, h7, h11]; ring
+    · simp only [M44.scale, M44.adj, M44.det3, h3, h7, h11]; ring
+    · simp only [M44.scale, M44.adj]
+      rw [hde]
+      field_simp
+  have idv : ∀ w : V3, Matrix44Pyx.transform M44.identity w = w := by
+    intro w; cases w; simp [Matrix44Pyx.transform, M44.identity]
+  have idd : ∀ w : V3, Matrix44Pyx.transformDirection M44.identity w = w := by
+    intro w; cases w; simp [Matrix44Pyx.transformDirection, M44.identity]
+  refine ⟨i, hi, hia, ?_, ?_, ?_⟩
+  · rw [← transform_mul m i v ha]; show Matrix44Pyx.transform (M44.mul m i) v = v; rw [hr, idv]
+  · rw [← transform_mul i m v hia]; show Matrix44Pyx.transform (M44.mul i m) v = v; rw [hl, idv]
+  · rw [← transform_direction_mul m i v ha.1 ha.2.1 ha.2.2.1]
+    show Matrix44Pyx.transformDirection (M44.mul m i) v = v; rw [hr, idd]
+
+/-- a rotation matrix (orthonormal rows, no translation) is inverted by transposing it - what `ocs_to_wcs` relies on -/
+theorem inverse_rotation (m : M44) (h : IsRigid m) (h0 : m.origin = ⟨0, 0, 0⟩) :
+    Matrix44Pyx.inverse m = .ok (M44.transpose m) ∧ Matrix44Pyx.determinant m * Matrix44Pyx.determinant m = 1 := by
+  obtain ⟨⟨h3, h7, h11, h15⟩, hxx, hyy, hzz, hxy, hxz, hyz⟩ := h
+  simp only [M44.origin, V3.mk.injEq] at h0
+  obtain ⟨h12, h13, h14⟩ := h0
+  simp only [V3.dot, M44.ux, M44.uy, M44.uz] at hxx hyy hzz hxy hxz hyz
+  have hT : M44.mul m (M44.transpose m) = M44.identity := by
+    simp only [M44.mul, M44.transpose, M44.identity, M44.mk.injEq, h3, h7, h11, h15, h12, h13, h14]
+    refine ⟨?_, ?_, ?_, ?_, ?_, ?_, ?_, ?_, ?_, ?_, ?_, ?_, ?_, ?_, ?_, ?_⟩ <;> linarith
+  have hdd : M44.det m * M44.det (M44.transpose m) = 1 := by rw [← det_mul, hT, det_identity]
+  have hdt : M44.det (M44.transpose m) = M44.det m := (transpose_laws m m).2.1
+  rw [hdt] at hdd
+  have hd : Matrix44Pyx.determinant m ≠ 0 := by
+    rw [determinant_is_textbook]; intro h0'; rw [h0'] at hdd; simp at hdd
+  obtain ⟨i, hi, _, _⟩ := inverse_two_sided m hd
+  refine ⟨?_, by rw [determinant_is_textbook]; exact hdd⟩
+  rw [hi, inverse_unique m i _ hi hT]
+
+example : Matrix44Pyx.inverse (Matrix44Pyx.mul (Matrix44Pyx.scale 2 4 8) (Matrix44Pyx.translate 1 2 3))
+    = .ok (M44.mul ⟨1, 0, 0, 0, 0, 1, 0, 0, 0, 0, 1, 0, -1, -2, -3, 1⟩ ⟨1/2, 0, 0, 0, 0, 1/4, 0, 0, 0, 0, 1/8, 0, 0, 0, 0, 1⟩) := by
+  decide +kernel
+
+/-! ## 13. More vector algebra and the construct3d helpers -/
+
+/-- division, reflected operators, accessors, magnitudes: `v / k` is `v * (1/k)` and raises ZeroDivisionError for
+    k = 0 in both twins (the Python twin divides each component, the Cython twin multiplies by `1.0 / k`),
+    `k * v = v * k`, `t + v = v + t`, `reversed = -v`, `xy` drops z, the magnitudes are the roots of v·v and x²+y² -/
+theorem vector_ops_more (a b : V3) (p : V2) (k : Rat) :
+    (k ≠ 0 → VectorPyx.v3truediv a k = .ok (V3.smul (1 / k) a) ∧ VectorPy.v3truediv a k = .ok (V3.smul (1 / k) a)
+        ∧ VectorPyx.v2truediv p k = .ok ⟨p.x * (1 / k), p.y * (1 / k)⟩ ∧ VectorPy.v2truediv p k = .ok ⟨p.x * (1 / k), p.y * (1 / k)⟩)
+    ∧ VectorPyx.v3truediv a 0 = .error .zeroDivision ∧ VectorPy.v3truediv a 0 = .error .zeroDivision
+    ∧ VectorPyx.v2truediv p 0 = .error .zeroDivision ∧ VectorPy.v2truediv p 0 = .error .zeroDivision
+    ∧ VectorPyx.v3rmul a k = VectorPyx.v3mul a k ∧ VectorPy.v3rmul a k = VectorPyx.v3mul a k
+    ∧ VectorPyx.v3radd a b = VectorPyx.v3add a b ∧ VectorPy.v3radd a b = VectorPyx.v3add a b
+    ∧ VectorPyx.v3reversed a = VectorPyx.v3neg a ∧ VectorPy.v3reversed a = VectorPyx.v3neg a
+    ∧ VectorPyx.v3xy a = ⟨a.x, a.y, 0⟩ ∧ VectorPy.v3xy a = ⟨a.x, a.y, 0⟩
+    ∧ VectorPyx.v3vec2 a = ⟨a.x, a.y⟩ ∧ VectorPy.v3vec2 a = ⟨a.x, a.y⟩
+    ∧ VectorPyx.v3mag_rad1 a = V3.dot a a ∧ VectorPy.v3mag_rad1 a = V3.dot a a
+    ∧ VectorPyx.v3magxy_rad1 a = a.x * a.x + a.y * a.y ∧ VectorPy.v3magxy_rad1 a = a.x * a.x + a.y * a.y
+    ∧ (∀ r, VectorPyx.v3mag a r = r ∧ VectorPy.v3mag a r = r ∧ VectorPyx.v3magxy a r = r ∧ VectorPy.v3magxy a r = r) := by
+  refine ⟨?_, by simp [VectorPyx.v3truediv], by simp [VectorPy.v3truediv], by simp [VectorPyx.v2truediv],
+    by simp [VectorPy.v2truediv], rfl, rfl, rfl, rfl, rfl, rfl, rfl, rfl, rfl, rfl, rfl, rfl, rfl, rfl,
+    fun r => ⟨rfl, rfl, rfl, rfl⟩⟩
+  intro hk
+  refine ⟨?_, ?_, ?_, ?_⟩
+  · simp only [VectorPyx.v3truediv, if_neg hk, V3.smul, Except.ok.injEq, V3.mk.injEq]; refine ⟨?_, ?_, ?_⟩ <;> ring
+  · simp only [VectorPy.v3truediv, if_neg hk, V3.smul, Except.ok.injEq, V3.mk.injEq]; refine ⟨?_, ?_, ?_⟩ <;> ring
+  · simp only [VectorPyx.v2truediv, if_neg hk]
+  · simp only [VectorPy.v2truediv, if_neg hk, Except.ok.injEq, V2.mk.injEq]; refine ⟨?_, ?_⟩ <;> ring
+
+/-- `normalize(length)`: a·(length/|a|); its squared length is length²; the null vector raises; 2-D variants -/
+theorem normalize_length_spec (a : V3) (p q : V2) (len r : Rat) (hr : r * r = VectorPyx.v3normalizeL_rad1 a len) :
+    (r = 0 → VectorPyx.v3normalizeL a len r = .error .zeroDivision)
+    ∧ (r ≠ 0 → ∃ u, VectorPyx.v3normalizeL a len r = .ok u ∧ VectorPy.v3normalizeL a len r = .ok u
+        ∧ u = V3.smul (len / r) a ∧ V3.dot u u = len * len)
+    ∧ (∀ s : Rat, s ≠ 0 → s * s = VectorPyx.v2normalize_rad1 p →
+        ∃ u, VectorPyx.v2normalize p s = .ok u ∧ VectorPy.v2normalize p s = .ok u ∧ u.x * u.x + u.y * u.y = 1
+          ∧ VectorPyx.v2det u p = 0)
+    ∧ (∀ s : Rat, s ≠ 0 → s * s = VectorPyx.v2project_rad1 p q →
+        ∃ w, VectorPyx.v2project p q s = .ok w ∧ VectorPy.v2project p q s = .ok w
+          ∧ VectorPyx.v2dot (VectorPyx.v2sub q w) p = 0 ∧ VectorPyx.v2det w p = 0) := by
+  simp only [VectorPyx.v3normalizeL_rad1] at hr
+  refine ⟨fun h => by simp [VectorPyx.v3normalizeL, h], fun h => ?_, fun s hs es => ?_, fun s hs es => ?_⟩
+  · refine ⟨_, by simp only [VectorPyx.v3normalizeL, if_neg h]; rfl, by simp only [VectorPy.v3normalizeL, if_neg h], ?_, ?_⟩
+    · simp only [V3.smul, V3.mk.injEq]; refine ⟨?_, ?_, ?_⟩ <;> ring
+    · simp only [V3.dot]; field_simp; linear_combination (-(len * len)) * hr
+  · simp only [VectorPyx.v2normalize_rad1] at es
+    refine ⟨_, by simp only [VectorPyx.v2normalize, if_neg hs]; rfl, by simp only [VectorPy.v2normalize, if_neg hs], ?_, ?_⟩
+    · field_simp; linarith
+    · simp only [VectorPyx.v2det]; ring
+  · simp only [VectorPyx.v2project_rad1] at es
+    refine ⟨_, by simp only [VectorPyx.v2project, if_neg hs]; rfl, by simp only [VectorPy.v2project, if_neg hs], ?_, ?_⟩
+    · simp only [VectorPyx.v2dot, VectorPyx.v2sub]; field_simp; linear_combination (p.x * q.x + p.y * q.y) * es
+    · simp only [VectorPyx.v2det]; ring
+
+private theorem pyAbs_neg' (x : Rat) : pyAbs (-x) = pyAbs x := by
+  unfold pyAbs
+  by_cases h1 : 0 ≤ x <;> by_cases h2 : 0 ≤ -x <;> simp only [h1, h2, if_true, if_false] <;> linarith
+
+private theorem pyAbs_sub_comm (x y : Rat) : pyAbs (x - y) = pyAbs (y - x) := by
+  rw [← pyAbs_neg' (x - y)]; congr 1; ring
+
+private theorem pyAbs_zero_le (t : Rat) (h : 0 ≤ t) : pyAbs (0 : Rat) ≤ t := by simpa [pyAbs] using h
+
+/-- `is_parallel` as decision logic: BOTH operands are normalised first, so a null operand raises ZeroDivisionError
+    (it does not answer False); otherwise the answer is `isclose(â, b̂) or isclose(â, −b̂)` with the default
+    tolerances, the relation is symmetric, and every exact multiple b = k·a (k ≠ 0, either sign) IS parallel -/
+theorem is_parallel_spec (a b : V3) (r1 r2 : Rat) :
+    ((r1 = 0 ∨ r2 = 0) → VectorPyx.v3isparallel a b r1 r2 = .error .zeroDivision)
+    ∧ (r1 ≠ 0 → r2 ≠ 0 →
+        VectorPyx.v3isparallel a b r1 r2
+          = .ok (VectorPyx.v3isclose (V3.smul (1 / r1) a) (V3.smul (1 / r2) b)
+                || VectorPyx.v3isclose (V3.smul (1 / r1) a) (VectorPyx.v3neg (V3.smul (1 / r2) b)))
+        ∧ VectorPy.v3isparallel a b r1 r2
+          = .ok (VectorPy.v3isclose (V3.smul (1 / r1) a) (V3.smul (1 / r2) b)
+                || VectorPy.v3isclose (V3.smul (1 / r1) a) (VectorPyx.v3neg (V3.smul (1 / r2) b))))
+    ∧ (∀ k : Rat, 0 < r1 → r1 * r1 = VectorPyx.v3isparallel_rad1 a b → k ≠ 0 → b = V3.smul k a → r2 = pyAbs k * r1 →
+        VectorPyx.v3isparallel a b r1 r2 = .ok true) := by
+  refine ⟨?_, ?_, ?_⟩
+  · rintro (h | h)
+    · simp [VectorPyx.v3isparallel, h]
+    · by_cases h1 : r1 = 0 <;> simp [VectorPyx.v3isparallel, h, h1]
+  · intro h1 h2
+    constructor
+    · simp only [VectorPyx.v3isparallel, if_neg h1, if_neg h2, VectorPyx.v3isclose, VectorPyx.v3neg, V3.smul]
+      congr 1
+      simp only [mul_comm (1 / r1), mul_comm (1 / r2)]
+    · simp only [VectorPy.v3isparallel, if_neg h1, if_neg h2, VectorPy.v3isclose, VectorPyx.v3neg, V3.smul]
+      congr 1
+      simp only [mul_comm (1 / r1), mul_comm (1 / r2)]
+  · intro k hr1 er1 hk hb hr2
+    have h1 : r1 ≠ 0 := ne_of_gt hr1
+    have hkabs : pyAbs k ≠ 0 := by
+      unfold pyAbs; split <;> [exact hk; exact neg_ne_zero.mpr hk]
+    have h2 : r2 ≠ 0 := by rw [hr2]; exact mul_ne_zero hkabs h1
+    obtain ⟨ax, ay, az⟩ := a
+    subst hb
+    simp only [V3.smul] at *
+    simp only [VectorPyx.v3isparallel, if_neg h1, if_neg h2, Except.ok.injEq]
+    have tol : (0 : Rat) ≤ (4951760157141521 : Rat) / 4951760157141521099596496896 := by norm_num
+    by_cases hpos : 0 ≤ k
+    · have hk' : pyAbs k = k := by simp [pyAbs, hpos]
+      have e : ∀ t : Rat, k * t * (1 / r2) = t * (1 / r1) := by
+        intro t; rw [hr2, hk']; field_simp
+      simp only [e, sub_self, pyAbs_zero_le _ tol, decide_true, Bool.or_true, Bool.and_true, Bool.true_or]
+    · have hk' : pyAbs k = -k := by simp [pyAbs, hpos]
+      have e : ∀ t : Rat, -(k * t * (1 / r2)) = t * (1 / r1) := by
+        intro t; rw [hr2, hk']; field_simp
+      simp only [e, sub_self, pyAbs_zero_le _ tol, decide_true, Bool.or_true, Bool.and_true]
+
+example : VectorPyx.v3isparallel ⟨3, 4, 0⟩ ⟨-6, -8, 0⟩ 5 10 = .ok true := by decide +kernel
+example : VectorPyx.v3isparallel ⟨3, 4, 0⟩ ⟨4, -3, 0⟩ 5 5 = .ok false := by decide +kernel
+example : VectorPyx.v3isparallel ⟨3, 4, 0⟩ ⟨0, 0, 0⟩ 5 0 = .error .zeroDivision := by decide +kernel
+
+/-- `normal_vector_3p(a, b, c)`: the unit normal (b−a)×(c−a)/|…|, perpendicular to both edges; exchanging b and c
+    reverses it; collinear points (radicand 0) raise ZeroDivisionError; both linkings agree -/
+theorem normal_vector_3p_spec (a b c : V3) (r : Rat) (hr : r * r = ConstructPyx.normal3p_rad1 a b c) :
+    ConstructPyx.normal3p_rad1 a b c = V3.dot (V3.cross (V3.sub b a) (V3.sub c a)) (V3.cross (V3.sub b a) (V3.sub c a))
+    ∧ (V3.cross (V3.sub b a) (V3.sub c a) = ⟨0, 0, 0⟩ → ConstructPyx.normal3p a b c r = .error .zeroDivision)
+    ∧ (r ≠ 0 → ∃ n, ConstructPyx.normal3p a b c r = .ok n ∧ ConstructPy.normal3p a b c r = .ok n
+        ∧ n = V3.smul (1 / r) (V3.cross (V3.sub b a) (V3.sub c a))
+        ∧ V3.dot n n = 1 ∧ V3.dot n (V3.sub b a) = 0 ∧ V3.dot n (V3.sub c a) = 0
+        ∧ ConstructPyx.normal3p a c b r = .ok (V3.smul (-1) n)) := by
+  have hrad : ConstructPyx.normal3p_rad1 a b c
+      = V3.dot (V3.cross (V3.sub b a) (V3.sub c a)) (V3.cross (V3.sub b a) (V3.sub c a)) := by
+    simp only [ConstructPyx.normal3p_rad1, V3.dot, V3.cross, V3.sub]
+  refine ⟨hrad, ?_, ?_⟩
+  · intro h0
+    rw [hrad, h0] at hr
+    have : r = 0 := by simpa [V3.dot] using hr
+    simp [ConstructPyx.normal3p, this]
+  · intro h
+    simp only [ConstructPyx.normal3p_rad1] at hr
+    refine ⟨_, by simp only [ConstructPyx.normal3p, if_neg h]; rfl, by simp only [ConstructPy.normal3p, if_neg h], ?_, ?_, ?_, ?_, ?_⟩
+    · simp only [V3.smul, V3.cross, V3.sub, V3.mk.injEq]; refine ⟨?_, ?_, ?_⟩ <;> ring
+    · simp only [V3.dot]; field_simp; linarith
+    · simp only [V3.dot, V3.sub]; ring
+    · simp only [V3.dot, V3.sub]; ring
+    · simp only [ConstructPyx.normal3p, if_neg h, V3.smul, Except.ok.injEq, V3.mk.injEq]; refine ⟨?_, ?_, ?_⟩ <;> ring
+
+example : ConstructPyx.normal3p ⟨0, 0, 0⟩ ⟨2, 0, 0⟩ ⟨0, 3, 0⟩ 6 = .ok ⟨0, 0, 1⟩ := by decide +kernel
+example : ConstructPyx.normal3p ⟨0, 0, 0⟩ ⟨1, 1, 1⟩ ⟨2, 2, 2⟩ 0 = .error .zeroDivision := by decide +kernel
+
+/-- `basic_transformation(move, scale, 0)` (rotation omitted by the code when the angle is 0): scaling first, then
+    the translation - which the code SKIPS when `move.is_null` (all |components| ≤ 1e-12) -/
+theorem basic_transformation_spec (move scale v : V3) :
+    ConstructPyx.basicT0 move scale
+      = (if VectorPyx.v3isnull move = true then Matrix44Pyx.scale scale.x scale.y scale.z
+         else M44.mul (Matrix44Pyx.scale scale.x scale.y scale.z) (Matrix44Pyx.translate move.x move.y move.z))
+    ∧ M44.IsAffine (ConstructPyx.basicT0 move scale)
+    ∧ Matrix44Pyx.transform (ConstructPyx.basicT0 move scale) v
+      = (if VectorPyx.v3isnull move = true then ⟨v.x * scale.x, v.y * scale.y, v.z * scale.z⟩
+         else ⟨v.x * scale.x + move.x, v.y * scale.y + move.y, v.z * scale.z + move.z⟩) := by
+  have h1 : ConstructPyx.basicT0 move scale
+      = (if VectorPyx.v3isnull move = true then Matrix44Pyx.scale scale.x scale.y scale.z
+         else M44.mul (Matrix44Pyx.scale scale.x scale.y scale.z) (Matrix44Pyx.translate move.x move.y move.z)) := by
+    unfold ConstructPyx.basicT0 VectorPyx.v3isnull
+    by_cases h : ((pyAbs move.x) ≤ ((4951760157141521 : Rat) / 4951760157141521099596496896)
+        ∧ (pyAbs move.y) ≤ ((4951760157141521 : Rat) / 4951760157141521099596496896))
+        ∧ (pyAbs move.z) ≤ ((4951760157141521 : Rat) / 4951760157141521099596496896)
+    · have hb : ((decide ((pyAbs move.x) ≤ ((4951760157141521 : Rat) / 4951760157141521099596496896))
+          && decide ((pyAbs move.y) ≤ ((4951760157141521 : Rat) / 4951760157141521099596496896)))
+          && decide ((pyAbs move.z) ≤ ((4951760157141521 : Rat) / 4951760157141521099596496896))) = true := by
+        simp [h.1.1, h.1.2, h.2]
+      rw [if_neg (not_not.mpr h), if_pos hb]; rfl
+    · have hb : ¬ (((decide ((pyAbs move.x) ≤ ((4951760157141521 : Rat) / 4951760157141521099596496896))
+          && decide ((pyAbs move.y) ≤ ((4951760157141521 : Rat) / 4951760157141521099596496896)))
+          && decide ((pyAbs move.z) ≤ ((4951760157141521 : Rat) / 4951760157141521099596496896))) = true) := by
+        simp only [Bool.and_eq_true, decide_eq_true_eq]; exact h
+      rw [if_pos h, if_neg hb]
+      simp only [M44.mul, Matrix44Pyx.scale, Matrix44Pyx.translate, M44.mk.injEq]
+      refine ⟨?_, ?_, ?_, ?_, ?_, ?_, ?_, ?_, ?_, ?_, ?_, ?_, ?_, ?_, ?_, ?_⟩ <;> ring
+  refine ⟨h1, ?_, ?_⟩
+  · rw [h1]; split
+    · exact (scale_spec _ _ _ v).2.2.1
+    · exact affine_mul _ _ (scale_spec _ _ _ v).2.2.1 (translate_spec _ _ _ v).2.2.1
+  · rw [h1]; split
+    · exact (scale_spec _ _ _ v).1
+    · show Matrix44Pyx.transform (Matrix44Pyx.mul _ _) v = _
+      rw [transform_mul _ _ v (scale_spec _ _ _ v).2.2.1, (scale_spec _ _ _ v).1, (translate_spec _ _ _ _).1]
+
+private theorem dist_key (vx vy vz ux uy uz r : Rat) (hu : ux * ux + uy * uy + uz * uz = 1) :
+    (vx * vx + vy * vy + vz * vz - (ux * (ux * vx + uy * vy + uz * vz) * (ux * (ux * vx + uy * vy + uz * vz))
+        + uy * (ux * vx + uy * vy + uz * vz) * (uy * (ux * vx + uy * vy + uz * vz))
+        + uz * (ux * vx + uy * vy + uz * vz) * (uz * (ux * vx + uy * vy + uz * vz)))) * (r * r)
+      = (vy * (uz * r) - vz * (uy * r)) * (vy * (uz * r) - vz * (uy * r))
+        + (vz * (ux * r) - vx * (uz * r)) * (vz * (ux * r) - vx * (uz * r))
+        + (vx * (uy * r) - vy * (ux * r)) * (vx * (uy * r) - vy * (ux * r)) := by
+  linear_combination (-(r * r) * ((vx * vx + vy * vy + vz * vz) + (ux * vx + uy * vy + uz * vz) ^ 2)) * hu
+
+private theorem sumsq_nonneg (x y z : Rat) : 0 ≤ x * x + y * y + z * z := by
+  nlinarith [mul_self_nonneg x, mul_self_nonneg y, mul_self_nonneg z]
+
+private theorem dist_zero_case (B L X : Rat) (key : B * L = X) (hle : B ≤ 0) (hL : 0 < L) (hX : 0 ≤ X) :
+    0 * 0 * L = X := by
+  have : 0 ≤ B := by
+    by_contra hneg
+    have : B * L < 0 := mul_neg_of_neg_of_pos (lt_of_not_ge hneg) hL
+    linarith
+  have hB : B = 0 := le_antisymm hle this
+  rw [hB] at key
+  linarith
+
+private theorem dist_pos_case (B L X r : Rat) (key : B * L = X) (e : r * r = B) : r * r * L = X := by
+  rw [e]; exact key
+
+/-- `distance_point_line_3d(p, a, b)`: raises ZeroDivisionError exactly when `a.isclose(b)` ("not a line");
+    otherwise (r1 = |b−a|, r2 = the root of the Pythagoras difference) the result d is ≥ 0 and satisfies
+    d²·|b−a|² = |(p−a)×(b−a)|² - the true distance - the `diff <= 0` branch returning exactly 0 only when p is ON the line -/
+theorem distance_point_line_spec (p a b : V3) (r1 r2 : Rat)
+    (h1 : 0 < r1) (e1 : r1 * r1 = ConstructPyx.distPointLine_rad1 p a b)
+    (h2 : 0 ≤ r2) (e2 : r2 * r2 = ConstructPyx.distPointLine_rad2 p a b r1) :
+    (VectorPyx.v3isclose a b = true → ConstructPyx.distPointLine p a b r1 r2 = .error .zeroDivision)
+    ∧ (VectorPyx.v3isclose a b = false →
+        ∃ d, ConstructPyx.distPointLine p a b r1 r2 = .ok d ∧ 0 ≤ d
+          ∧ d * d * V3.dot (V3.sub b a) (V3.sub b a)
+              = V3.dot (V3.cross (V3.sub p a) (V3.sub b a)) (V3.cross (V3.sub p a) (V3.sub b a))) := by
+  let P : Except PyErr Rat → Prop := fun x =>
+    (VectorPyx.v3isclose a b = true → x = .error .zeroDivision)
+    ∧ (VectorPyx.v3isclose a b = false →
+        ∃ d, x = .ok d ∧ 0 ≤ d
+          ∧ d * d * V3.dot (V3.sub b a) (V3.sub b a)
+              = V3.dot (V3.cross (V3.sub p a) (V3.sub b a)) (V3.cross (V3.sub p a) (V3.sub b a)))
+  show P _
+  unfold ConstructPyx.distPointLine
+  refine ite_ind P _ _ _ (fun hC => ?_) (fun hC => ?_)
+  · refine ⟨fun _ => rfl, fun hf => ?_⟩
+    exfalso
+    have : VectorPyx.v3isclose a b = true := by
+      simp only [VectorPyx.v3isclose, Bool.and_eq_true, Bool.or_eq_true, decide_eq_true_eq]; exact hC
+    rw [this] at hf; cases hf
+  · have hne : ¬ VectorPyx.v3isclose a b = true := by
+      intro h
+      simp only [VectorPyx.v3isclose, Bool.and_eq_true, Bool.or_eq_true, decide_eq_true_eq] at h
+      exact hC h
+    rw [ConstructPyx.distPointLine_rad1, if_neg hC] at e1
+    rw [ConstructPyx.distPointLine_rad2, if_neg hC] at e2
+    refine ⟨fun h => absurd h hne, fun _ => ?_⟩
+    have hr1 : r1 ≠ 0 := ne_of_gt h1
+    rw [if_neg hr1]
+    have hu : (b.x - a.x) * (1 / r1) * ((b.x - a.x) * (1 / r1)) + (b.y - a.y) * (1 / r1) * ((b.y - a.y) * (1 / r1))
+        + (b.z - a.z) * (1 / r1) * ((b.z - a.z) * (1 / r1)) = 1 := by
+      field_simp; linarith
+    have key := dist_key (p.x - a.x) (p.y - a.y) (p.z - a.z) ((b.x - a.x) * (1 / r1)) ((b.y - a.y) * (1 / r1))
+      ((b.z - a.z) * (1 / r1)) r1 hu
+    have ex : (b.x - a.x) * (1 / r1) * r1 = b.x - a.x := by field_simp
+    have ey : (b.y - a.y) * (1 / r1) * r1 = b.y - a.y := by field_simp
+    have ez : (b.z - a.z) * (1 / r1) * r1 = b.z - a.z := by field_simp
+    rw [ex, ey, ez] at key
+    have hdd : V3.dot (V3.sub b a) (V3.sub b a) = r1 * r1 := e1.symm
+    have hpos : 0 < r1 * r1 := mul_pos h1 h1
+    refine ite_ind (fun x => ∃ d, x = Except.ok d ∧ 0 ≤ d ∧ d * d * V3.dot (V3.sub b a) (V3.sub b a)
+        = V3.dot (V3.cross (V3.sub p a) (V3.sub b a)) (V3.cross (V3.sub p a) (V3.sub b a))) _ _ _ (fun hle => ?_) (fun hgt => ?_)
+    · refine ⟨0, rfl, le_refl _, ?_⟩
+      rw [hdd]
+      exact dist_zero_case _ _ _ key hle hpos (sumsq_nonneg _ _ _)
+    · rw [if_neg hgt] at e2
+      refine ⟨r2, rfl, h2, ?_⟩
+      rw [hdd]
+      exact dist_pos_case _ _ _ _ key e2
+
+/-! ## 14. UCS factories: the three two-axis constructors and the six axis/point constructors -/
+
+/-- two perpendicular non-null vectors p, q give the right-handed orthonormal frame (p/|p|, q/|q|, (p×q)/|p×q|),
+    and |p×q| = |p||q| -/
+private theorem frame_from_two (p q : V3) (rp rq r3 : Rat) (hp : 0 < rp) (hq : 0 < rq) (h3 : 0 < r3)
+    (ep : rp * rp = V3.dot p p) (eq : rq * rq = V3.dot q q) (e3 : r3 * r3 = V3.dot (V3.cross p q) (V3.cross p q))
+    (hpq : V3.dot p q = 0) :
+    r3 = rp * rq ∧
+    V3.dot (V3.smul (1 / rp) p) (V3.smul (1 / rp) p) = 1 ∧ V3.dot (V3.smul (1 / rq) q) (V3.smul (1 / rq) q) = 1
+    ∧ V3.dot (V3.smul (1 / r3) (V3.cross p q)) (V3.smul (1 / r3) (V3.cross p q)) = 1
+    ∧ V3.dot (V3.smul (1 / rp) p) (V3.smul (1 / rq) q) = 0
+    ∧ V3.dot (V3.smul (1 / rp) p) (V3.smul (1 / r3) (V3.cross p q)) = 0
+    ∧ V3.dot (V3.smul (1 / rq) q) (V3.smul (1 / r3) (V3.cross p q)) = 0
+    ∧ V3.cross (V3.smul (1 / rp) p) (V3.smul (1 / rq) q) = V3.smul (1 / r3) (V3.cross p q)
+    ∧ V3.cross (V3.smul (1 / rq) q) (V3.smul (1 / r3) (V3.cross p q)) = V3.smul (1 / rp) p
+    ∧ V3.cross (V3.smul (1 / r3) (V3.cross p q)) (V3.smul (1 / rp) p) = V3.smul (1 / rq) q := by
+  obtain ⟨px, py, pz⟩ := p
+  obtain ⟨qx, qy, qz⟩ := q
+  simp only [V3.dot, V3.cross, V3.smul] at *
+  have n1 : rp ≠ 0 := ne_of_gt hp
+  have n2 : rq ≠ 0 := ne_of_gt hq
+  have n3 : r3 ≠ 0 := ne_of_gt h3
+  have hl : r3 * r3 = (rp * rq) * (rp * rq) := by
+    rw [e3]
+    linear_combination (exp := 1) (-(qx * qx + qy * qy + qz * qz)) * ep - (rp * rp) * eq - (px * qx + py * qy + pz * qz) * hpq
+  have h12 : 0 < rp * rq := mul_pos hp hq
+  have hr3 : r3 = rp * rq := by nlinarith
+  subst hr3
+  refine ⟨rfl, ?_, ?_, ?_, ?_, ?_, ?_, ?_, ?_, ?_⟩
+  · field_simp; linear_combination -ep
+  · field_simp; linear_combination -eq
+  · field_simp; linear_combination -e3
+  · field_simp; linear_combination hpq
+  · field_simp; ring
+  · field_simp; ring
+  · simp only [V3.mk.injEq]; refine ⟨?_, ?_, ?_⟩ <;> field_simp
+  · simp only [V3.mk.injEq]
+    refine ⟨?_, ?_, ?_⟩
+    · field_simp; linear_combination (-px) * eq + (-qx) * hpq
+    · field_simp; linear_combination (-py) * eq + (-qy) * hpq
+    · field_simp; linear_combination (-pz) * eq + (-qz) * hpq
+  · simp only [V3.mk.injEq]
+    refine ⟨?_, ?_, ?_⟩
+    · field_simp; linear_combination (-qx) * ep + (-px) * hpq
+    · field_simp; linear_combination (-qy) * ep + (-py) * hpq
+    · field_simp; linear_combination (-qz) * ep + (-pz) * hpq
+
+
+private theorem dot_comm' (a b : V3) : V3.dot a b = V3.dot b a := by simp only [V3.dot]; ring
+
+private theorem from_wcs_dots (m : M44) (p : V3) :
+    UcsPyx.ucsFromWcs m p = ⟨V3.dot (V3.sub p m.origin) m.ux, V3.dot (V3.sub p m.origin) m.uy, V3.dot (V3.sub p m.origin) m.uz⟩ := rfl
+
+/-- `UCS(origin, ux=a, uz=c)` and `UCS(origin, uy=b, uz=c)` with perpendicular given axes: the missing axis is
+    uz × ux resp. uy × uz, the frame is orthonormal and right-handed, the third root is the product of the first two
+    (the `ux, uy` variant is `ucs_init_xy`) -/
+theorem ucs_init_xz_yz (o a c : V3) (r1 r2 r3 : Rat) (h1 : 0 < r1) (h2 : 0 < r2) (h3 : 0 < r3) (hp : V3.dot a c = 0) :
+    (r1 * r1 = UcsPyx.ucsInitXZ_rad1 o a c → r2 * r2 = UcsPyx.ucsInitXZ_rad2 o a c r1 →
+      r3 * r3 = UcsPyx.ucsInitXZ_rad3 o a c r1 r2 →
+      ∃ m, UcsPyx.ucsInitXZ o a c r1 r2 r3 = .ok m ∧ UcsPy.ucsInitXZ o a c r1 r2 r3 = .ok m ∧ m.origin = o
+        ∧ m.ux = V3.smul (1 / r1) a ∧ m.uz = V3.smul (1 / r2) c ∧ m.uy = V3.smul (1 / r3) (V3.cross c a)
+        ∧ r3 = r1 * r2 ∧ Orthonormal m ∧ V3.cross m.ux m.uy = m.uz)
+    ∧ (r1 * r1 = UcsPyx.ucsInitYZ_rad1 o a c → r2 * r2 = UcsPyx.ucsInitYZ_rad2 o a c r1 →
+      r3 * r3 = UcsPyx.ucsInitYZ_rad3 o a c r1 r2 →
+      ∃ m, UcsPyx.ucsInitYZ o a c r1 r2 r3 = .ok m ∧ UcsPy.ucsInitYZ o a c r1 r2 r3 = .ok m ∧ m.origin = o
+        ∧ m.uy = V3.smul (1 / r1) a ∧ m.uz = V3.smul (1 / r2) c ∧ m.ux = V3.smul (1 / r3) (V3.cross a c)
+        ∧ r3 = r1 * r2 ∧ Orthonormal m ∧ V3.cross m.ux m.uy = m.uz) := by
+  have n1 : r1 ≠ 0 := ne_of_gt h1
+  have n2 : r2 ≠ 0 := ne_of_gt h2
+  have n3 : r3 ≠ 0 := ne_of_gt h3
+  obtain ⟨_, ⟨mxz, hxz, hxz', oxz, uxz1, uxz2, uxz3⟩, ⟨myz, hyz, hyz', oyz, uyz1, uyz2, uyz3⟩⟩ :=
+    ucs_init_rows o a a c r1 r2 r3 n1 n2 n3
+  constructor
+  · intro e1 e2 e3
+    obtain ⟨hr, f11, f22, f33, f12, f13, f23, c12, c23, c31⟩ :=
+      frame_from_two c a r2 r1 r3 h2 h1 h3 e2 e1 e3 (by rw [dot_comm']; exact hp)
+    refine ⟨mxz, hxz, hxz', oxz, uxz1, uxz2, uxz3, by rw [hr, mul_comm], ?_, ?_⟩
+    · unfold Orthonormal
+      rw [uxz1, uxz2, uxz3]
+      exact ⟨f22, f33, f11, f23, by rw [dot_comm']; exact f12, by rw [dot_comm']; exact f13⟩
+    · rw [uxz1, uxz2, uxz3]; exact c23
+  · intro e1 e2 e3
+    obtain ⟨hr, f11, f22, f33, f12, f13, f23, c12, c23, c31⟩ :=
+      frame_from_two a c r1 r2 r3 h1 h2 h3 e1 e2 e3 hp
+    refine ⟨myz, hyz, hyz', oyz, uyz1, uyz2, uyz3, hr, ?_, ?_⟩
+    · unfold Orthonormal
+      rw [uyz1, uyz2, uyz3]
+      exact ⟨f33, f11, f22, by rw [dot_comm']; exact f13, by rw [dot_comm']; exact f23, f12⟩
+    · rw [uyz1, uyz2, uyz3]; exact c31
+
+
+set_option hygiene false in
+/-- closes `from_wcs m pt = ⟨…⟩` once the rows of m are known -/
+local macro "from_axis_coords" eW:ident : tactic => `(tactic|
+  (rw [from_wcs_dots, ho, hx, hy, hz]
+   subst hr
+   simp only [V3.dot, V3.sub, V3.smul, V3.cross, V3.mk.injEq]
+   refine ⟨?_, ?_, ?_⟩ <;> field_simp <;>
+     first | ring1 | linear_combination $eW:ident | linear_combination -$eW:ident))
+
+/-- the two constructors from an X-AXIS and a point: w = point − origin.
+    `from_x_axis_and_point_in_xy`: orthonormal right-handed frame with ux = axis/|axis|; the point has local
+    coordinates (w·axis/|axis|, |axis×w|/|axis|, 0): in the xy-plane, on the +y side, at its true distance from the axis.
+    `from_x_axis_and_point_in_xz`: likewise with local coordinates (w·axis/|axis|, 0, |w×axis|/|axis|).
+    r1, r2, r3 are the three roots each constructor takes (|axis|, |axis×w|, |third axis|). -/
+theorem ucs_from_x_axis_spec (o ax pt : V3) (r1 r2 r3 : Rat) (h1 : 0 < r1) (h2 : 0 < r2) (h3 : 0 < r3) :
+    (r1 * r1 = UcsPyx.ucsFromXaxisXY_rad1 o ax pt → r2 * r2 = UcsPyx.ucsFromXaxisXY_rad2 o ax pt r1 →
+      r3 * r3 = UcsPyx.ucsFromXaxisXY_rad3 o ax pt r1 r2 →
+      ∃ m, UcsPyx.ucsFromXaxisXY o ax pt r1 r2 r3 = .ok m ∧ UcsPy.ucsFromXaxisXY o ax pt r1 r2 r3 = .ok m
+        ∧ m.origin = o ∧ Orthonormal m ∧ V3.cross m.ux m.uy = m.uz ∧ m.ux = V3.smul (1 / r1) ax
+        ∧ UcsPyx.ucsFromWcs m pt = ⟨V3.dot (V3.sub pt o) ax / r1, r2 / r1, 0⟩)
+    ∧ (r1 * r1 = UcsPyx.ucsFromXaxisXZ_rad1 o ax pt → r2 * r2 = UcsPyx.ucsFromXaxisXZ_rad2 o ax pt r1 →
+      r3 * r3 = UcsPyx.ucsFromXaxisXZ_rad3 o ax pt r1 r2 →
+      ∃ m, UcsPyx.ucsFromXaxisXZ o ax pt r1 r2 r3 = .ok m ∧ UcsPy.ucsFromXaxisXZ o ax pt r1 r2 r3 = .ok m
+        ∧ m.origin = o ∧ Orthonormal m ∧ V3.cross m.ux m.uy = m.uz ∧ m.ux = V3.smul (1 / r1) ax
+        ∧ UcsPyx.ucsFromWcs m pt = ⟨V3.dot (V3.sub pt o) ax / r1, 0, r2 / r1⟩) := by
+  have n1 : r1 ≠ 0 := ne_of_gt h1
+  have n2 : r2 ≠ 0 := ne_of_gt h2
+  constructor
+  · intro e1 e2 e3
+    have hp : V3.dot ax (V3.cross ax (V3.sub pt o)) = 0 := by simp only [V3.dot, V3.cross, V3.sub]; ring
+    obtain ⟨m, hm, hm', ho, hx, hz, hy, hr, hon, hrh⟩ :=
+      (ucs_init_xz_yz o ax (V3.cross ax (V3.sub pt o)) r1 r2 r3 h1 h2 h3 hp).1 e1 e2 e3
+    refine ⟨m, hm, hm', ho, hon, hrh, hx, ?_⟩
+    simp only [UcsPyx.ucsFromXaxisXY_rad2] at e2
+    from_axis_coords e2
+  · intro e1 e2 e3
+    have hp : V3.dot ax (V3.cross (V3.sub pt o) ax) = 0 := by simp only [V3.dot, V3.cross, V3.sub]; ring
+    obtain ⟨m, hm, hm', ho, _, hx, hy, hz, hrest⟩ :=
+      ucs_init_xy o ax (V3.cross (V3.sub pt o) ax) r1 r2 r3 h1 e1 h2 e2 h3 e3
+    obtain ⟨hr, hon, hrh⟩ := hrest hp
+    refine ⟨m, hm, hm', ho, hon, hrh, hx, ?_⟩
+    simp only [UcsPyx.ucsFromXaxisXZ_rad2] at e2
+    from_axis_coords e2
+
+
+/-- the two constructors from a Y-AXIS and a point (w = point − origin).
+    `from_y_axis_and_point_in_xy`: uy = axis/|axis|, local coordinates of the point (|w×axis|/|axis|, w·axis/|axis|, 0).
+    `from_y_axis_and_point_in_yz`: uy = axis/|axis|, local coordinates (0, w·axis/|axis|, −|w×axis|/|axis|):
+    the code takes ux = w × axis, so - unlike the other five constructors - the defining point lies on the
+    NEGATIVE side of its plane (quirk of the source, modelled as it is; the frame is right-handed all the same).
+    Roots: XY: r1 = |axis|, r2 = |w×axis|;  YZ: r1 = |w×axis|, r2 = |axis|. -/
+theorem ucs_from_y_axis_spec (o ax pt : V3) (r1 r2 r3 : Rat) (h1 : 0 < r1) (h2 : 0 < r2) (h3 : 0 < r3) :
+    (r1 * r1 = UcsPyx.ucsFromYaxisXY_rad1 o ax pt → r2 * r2 = UcsPyx.ucsFromYaxisXY_rad2 o ax pt r1 →
+      r3 * r3 = UcsPyx.ucsFromYaxisXY_rad3 o ax pt r1 r2 →
+      ∃ m, UcsPyx.ucsFromYaxisXY o ax pt r1 r2 r3 = .ok m ∧ UcsPy.ucsFromYaxisXY o ax pt r1 r2 r3 = .ok m
+        ∧ m.origin = o ∧ Orthonormal m ∧ V3.cross m.ux m.uy = m.uz ∧ m.uy = V3.smul (1 / r1) ax
+        ∧ UcsPyx.ucsFromWcs m pt = ⟨r2 / r1, V3.dot (V3.sub pt o) ax / r1, 0⟩)
+    ∧ (r1 * r1 = UcsPyx.ucsFromYaxisYZ_rad1 o ax pt → r2 * r2 = UcsPyx.ucsFromYaxisYZ_rad2 o ax pt r1 →
+      r3 * r3 = UcsPyx.ucsFromYaxisYZ_rad3 o ax pt r1 r2 →
+      ∃ m, UcsPyx.ucsFromYaxisYZ o ax pt r1 r2 r3 = .ok m ∧ UcsPy.ucsFromYaxisYZ o ax pt r1 r2 r3 = .ok m
+        ∧ m.origin = o ∧ Orthonormal m ∧ V3.cross m.ux m.uy = m.uz ∧ m.uy = V3.smul (1 / r2) ax
+        ∧ UcsPyx.ucsFromWcs m pt = ⟨0, V3.dot (V3.sub pt o) ax / r2, -(r1 / r2)⟩) := by
+  have n1 : r1 ≠ 0 := ne_of_gt h1
+  have n2 : r2 ≠ 0 := ne_of_gt h2
+  constructor
+  · intro e1 e2 e3
+    have hp : V3.dot ax (V3.cross (V3.sub pt o) ax) = 0 := by simp only [V3.dot, V3.cross, V3.sub]; ring
+    obtain ⟨m, hm, hm', ho, hy, hz, hx, hr, hon, hrh⟩ :=
+      (ucs_init_xz_yz o ax (V3.cross (V3.sub pt o) ax) r1 r2 r3 h1 h2 h3 hp).2 e1 e2 e3
+    refine ⟨m, hm, hm', ho, hon, hrh, hy, ?_⟩
+    simp only [UcsPyx.ucsFromYaxisXY_rad2] at e2
+    from_axis_coords e2
+  · intro e1 e2 e3
+    have hp : V3.dot (V3.cross (V3.sub pt o) ax) ax = 0 := by simp only [V3.dot, V3.cross, V3.sub]; ring
+    obtain ⟨m, hm, hm', ho, _, hx, hy, hz, hrest⟩ :=
+      ucs_init_xy o (V3.cross (V3.sub pt o) ax) ax r1 r2 r3 h1 e1 h2 e2 h3 e3
+    obtain ⟨hr, hon, hrh⟩ := hrest hp
+    refine ⟨m, hm, hm', ho, hon, hrh, hy, ?_⟩
+    simp only [UcsPyx.ucsFromYaxisYZ_rad1] at e1
+    from_axis_coords e1
+
+/-- the two constructors from a Z-AXIS and a point (w = point − origin).
+    `from_z_axis_and_point_in_xz`: uz = axis/|axis|, local coordinates of the point (|axis×w|/|axis|, 0, w·axis/|axis|).
+    `from_z_axis_and_point_in_yz`: uz = axis/|axis|, local coordinates (0, |w×axis|/|axis|, w·axis/|axis|).
+    Roots: r1 = |axis×w|, r2 = |axis| in both. -/
+theorem ucs_from_z_axis_spec (o ax pt : V3) (r1 r2 r3 : Rat) (h1 : 0 < r1) (h2 : 0 < r2) (h3 : 0 < r3) :
+    (r1 * r1 = UcsPyx.ucsFromZaxisXZ_rad1 o ax pt → r2 * r2 = UcsPyx.ucsFromZaxisXZ_rad2 o ax pt r1 →
+      r3 * r3 = UcsPyx.ucsFromZaxisXZ_rad3 o ax pt r1 r2 →
+      ∃ m, UcsPyx.ucsFromZaxisXZ o ax pt r1 r2 r3 = .ok m ∧ UcsPy.ucsFromZaxisXZ o ax pt r1 r2 r3 = .ok m
+        ∧ m.origin = o ∧ Orthonormal m ∧ V3.cross m.ux m.uy = m.uz ∧ m.uz = V3.smul (1 / r2) ax
+        ∧ UcsPyx.ucsFromWcs m pt = ⟨r1 / r2, 0, V3.dot (V3.sub pt o) ax / r2⟩)
+    ∧ (r1 * r1 = UcsPyx.ucsFromZaxisYZ_rad1 o ax pt → r2 * r2 = UcsPyx.ucsFromZaxisYZ_rad2 o ax pt r1 →
+      r3 * r3 = UcsPyx.ucsFromZaxisYZ_rad3 o ax pt r1 r2 →
+      ∃ m, UcsPyx.ucsFromZaxisYZ o ax pt r1 r2 r3 = .ok m ∧ UcsPy.ucsFromZaxisYZ o ax pt r1 r2 r3 = .ok m
+        ∧ m.origin = o ∧ Orthonormal m ∧ V3.cross m.ux m.uy = m.uz ∧ m.uz = V3.smul (1 / r2) ax
+        ∧ UcsPyx.ucsFromWcs m pt = ⟨0, r1 / r2, V3.dot (V3.sub pt o) ax / r2⟩) := by
+  have n1 : r1 ≠ 0 := ne_of_gt h1
+  have n2 : r2 ≠ 0 := ne_of_gt h2
+  constructor
+  · intro e1 e2 e3
+    have hp : V3.dot (V3.cross ax (V3.sub pt o)) ax = 0 := by simp only [V3.dot, V3.cross, V3.sub]; ring
+    obtain ⟨m, hm, hm', ho, hy, hz, hx, hr, hon, hrh⟩ :=
+      (ucs_init_xz_yz o (V3.cross ax (V3.sub pt o)) ax r1 r2 r3 h1 h2 h3 hp).2 e1 e2 e3
+    refine ⟨m, hm, hm', ho, hon, hrh, hz, ?_⟩
+    simp only [UcsPyx.ucsFromZaxisXZ_rad1] at e1
+    from_axis_coords e1
+  · intro e1 e2 e3
+    have hp : V3.dot (V3.cross (V3.sub pt o) ax) ax = 0 := by simp only [V3.dot, V3.cross, V3.sub]; ring
+    obtain ⟨m, hm, hm', ho, hx, hz, hy, hr, hon, hrh⟩ :=
+      (ucs_init_xz_yz o (V3.cross (V3.sub pt o) ax) ax r1 r2 r3 h1 h2 h3 hp).1 e1 e2 e3
+    refine ⟨m, hm, hm', ho, hon, hrh, hz, ?_⟩
+    simp only [UcsPyx.ucsFromZaxisYZ_rad1] at e1
+    from_axis_coords e1
+
+example : UcsPyx.ucsFromYaxisYZ ⟨0, 0, 0⟩ ⟨0, 2, 0⟩ ⟨0, 1, 3⟩ 6 2 12
+    = .ok ⟨-1, 0, 0, 0, 0, 1, 0, 0, 0, 0, -1, 0, 0, 0, 0, 1⟩ := by decide +kernel
+example : UcsPyx.ucsFromZaxisYZ ⟨0, 0, 0⟩ ⟨0, 0, 2⟩ ⟨0, 3, 1⟩ 6 2 12 = .ok M44.identity := by decide +kernel
+example : UcsPyx.ucsFromXaxisXY ⟨1, 1, 1⟩ ⟨2, 0, 0⟩ ⟨5, 1, 1⟩ 2 0 0 = .error .zeroDivision := by decide +kernel
+
+/-! ## 15. Frame predicates, `isclose` as a relation -/
+
+private theorem dot_norm (a b c d e f s t : Rat) :
+    a * (1 / s) * (b * (1 / t)) + c * (1 / s) * (d * (1 / t)) + e * (1 / s) * (f * (1 / t))
+      = (a * b + c * d + e * f) * ((1 / s) * (1 / t)) := by ring
+
+private theorem pyAbs_zero' : pyAbs (0 : Rat) = 0 := by simp [pyAbs]
+
+/-- the frame predicates as decision logic.  `is_orthogonal`: normalises the three axis rows (a null row raises
+    ZeroDivisionError - it does not answer False) and tests the three dot products against 1e-9; it is True for every
+    matrix with pairwise perpendicular rows whatever their lengths and orientation.  `is_cartesian`: compares
+    (uy × uz)/|uy × uz| with ux/|ux|; it is True for every right-handed orthonormal frame.  `UCS.is_cartesian` is the
+    matrix predicate. -/
+theorem frame_predicates_spec (m : M44) (r1 r2 r3 : Rat) :
+    ((r1 = 0 ∨ r2 = 0 ∨ r3 = 0) → Matrix44Pyx.isOrthogonal m r1 r2 r3 = .error .zeroDivision)
+    ∧ (r1 ≠ 0 → r2 ≠ 0 → r3 ≠ 0 → V3.dot m.ux m.uy = 0 → V3.dot m.ux m.uz = 0 → V3.dot m.uy m.uz = 0 →
+        Matrix44Pyx.isOrthogonal m r1 r2 r3 = .ok true ∧ Matrix44Py.isOrthogonal m r1 r2 r3 = .ok true)
+    ∧ (IsRigid m → V3.cross m.ux m.uy = m.uz →
+        Matrix44Pyx.isCartesian m 1 1 = .ok true ∧ Matrix44Py.isCartesian m 1 1 = .ok true
+        ∧ Matrix44Pyx.isCartesian_rad1 m = 1 ∧ Matrix44Pyx.isCartesian_rad2 m 1 = 1)
+    ∧ UcsPyx.ucsIsCartesian m r1 r2 = Matrix44Pyx.isCartesian m r1 r2
+    ∧ UcsPy.ucsIsCartesian m r1 r2 = Matrix44Py.isCartesian m r1 r2 := by
+  refine ⟨?_, ?_, ?_, rfl, rfl⟩
+  · rintro (h | h | h)
+    · simp [Matrix44Pyx.isOrthogonal, h]
+    · by_cases h1 : r1 = 0 <;> simp [Matrix44Pyx.isOrthogonal, h, h1]
+    · by_cases h1 : r1 = 0 <;> by_cases h2 : r2 = 0 <;> simp [Matrix44Pyx.isOrthogonal, h, h1, h2]
+  · intro n1 n2 n3 hxy hxz hyz
+    simp only [V3.dot, M44.ux, M44.uy, M44.uz] at hxy hxz hyz
+    have tol : (0 : Rat) ≤ (4835703278458517 : Rat) / 4835703278458516698824704 := by norm_num
+    constructor
+    · simp only [Matrix44Pyx.isOrthogonal, if_neg n1, if_neg n2, if_neg n3, dot_norm, hxy, hxz, hyz, zero_mul,
+        pyAbs_zero', tol, decide_true, Bool.and_self]
+    · simp only [Matrix44Py.isOrthogonal, if_neg n1, if_neg n2, if_neg n3, dot_norm, hxy, hxz, hyz, zero_mul,
+        pyAbs_zero', tol, decide_true, Bool.and_self]
+  · intro hr hrh
+    obtain ⟨_, hxx, hyy, hzz, hxy, hxz, hyz⟩ := hr
+    simp only [V3.dot, V3.cross, M44.ux, M44.uy, M44.uz, V3.mk.injEq] at hxx hyy hzz hxy hxz hyz hrh
+    obtain ⟨h8, h9, h10⟩ := hrh
+    have ex : m.m5 * m.m10 - m.m6 * m.m9 = m.m0 := by
+      rw [← h10, ← h9]; linear_combination (m.m0) * hyy - (m.m4) * hxy
+    have ey : m.m6 * m.m8 - m.m4 * m.m10 = m.m1 := by
+      rw [← h10, ← h8]; linear_combination (m.m1) * hyy - (m.m5) * hxy
+    have ez : m.m4 * m.m9 - m.m5 * m.m8 = m.m2 := by
+      rw [← h9, ← h8]; linear_combination (m.m2) * hyy - (m.m6) * hxy
+    have tol : (0 : Rat) ≤ (4951760157141521 : Rat) / 4951760157141521099596496896 := by norm_num
+    refine ⟨?_, ?_, ?_, ?_⟩
+    · simp only [Matrix44Pyx.isCartesian, if_neg (one_ne_zero), ex, ey, ez, sub_self, pyAbs_zero', tol, decide_true,
+        Bool.or_true, Bool.and_self]
+    · simp only [Matrix44Py.isCartesian, if_neg (one_ne_zero), ex, ey, ez, pyIsclose, decide_true, Bool.true_or,
+        Bool.and_self]
+    · simp only [Matrix44Pyx.isCartesian_rad1, ex, ey, ez]; linarith
+    · simp only [Matrix44Pyx.isCartesian_rad2]; linarith
+
+example : Matrix44Pyx.isOrthogonal ⟨3, 4, 0, 0, -8, 6, 0, 0, 0, 0, -2, 0, 5, 5, 5, 1⟩ 5 10 2 = .ok true := by decide +kernel
+example : Matrix44Pyx.isCartesian ⟨0, 1, 0, 0, -1, 0, 0, 0, 0, 0, 1, 0, 5, 5, 5, 1⟩ 1 1 = .ok true := by decide +kernel
+example : Matrix44Pyx.isCartesian ⟨0, 1, 0, 0, 1, 0, 0, 0, 0, 0, 1, 0, 5, 5, 5, 1⟩ 1 1 = .ok false := by decide +kernel
+
+/-- one component of the C `isclose` of the Cython twin (= CPython's math.isclose without the `a == b` shortcut) -/
+private def ic (rel ab x y : Rat) : Bool :=
+  (decide (pyAbs (y - x) ≤ pyAbs (rel * y)) || decide (pyAbs (y - x) ≤ pyAbs (rel * x))) || decide (pyAbs (y - x) ≤ ab)
+
+private theorem pyAbs_nonneg' (x : Rat) : 0 ≤ pyAbs x := by
+  unfold pyAbs; split <;> linarith
+
+private theorem ic_symm (rel ab x y : Rat) : ic rel ab x y = ic rel ab y x := by
+  unfold ic
+  have : pyAbs (y - x) = pyAbs (x - y) := by rw [← pyAbs_neg' (y - x)]; congr 1; ring
+  rw [this, Bool.or_comm (decide (pyAbs (x - y) ≤ pyAbs (rel * y)))]
+
+private theorem ic_symm_neg (rel ab x y : Rat) : ic rel ab x (-y) = ic rel ab y (-x) := by
+  unfold ic
+  have h1 : pyAbs (-y - x) = pyAbs (-x - y) := by congr 1; ring
+  have h2 : pyAbs (rel * -y) = pyAbs (rel * y) := by rw [mul_neg, pyAbs_neg']
+  have h3 : pyAbs (rel * -x) = pyAbs (rel * x) := by rw [mul_neg, pyAbs_neg']
+  rw [h1, h2, h3, Bool.or_comm (decide (pyAbs (-x - y) ≤ pyAbs (rel * y)))]
+
+private theorem ic_refl (rel ab x : Rat) : ic rel ab x x = true := by
+  unfold ic
+  have h : pyAbs (0 : Rat) ≤ pyAbs (rel * x) := by simpa [pyAbs] using pyAbs_nonneg' (rel * x)
+  rw [sub_self]
+  simp [h]
+
+/-- `isclose` is reflexive (for ANY tolerances, negative ones included: |a−a| = 0 ≤ |rel·a|) and symmetric, for
+    explicit and default tolerances, in 3-D and 2-D; it is NOT transitive (witness) -/
+theorem isclose_laws (a b : V3) (p q : V2) (rel ab : Rat) :
+    VectorPyx.v3isclose2 a a rel ab = true ∧ VectorPyx.v3isclose2 a b rel ab = VectorPyx.v3isclose2 b a rel ab
+    ∧ VectorPyx.v3isclose a a = true ∧ VectorPyx.v3isclose a b = VectorPyx.v3isclose b a
+    ∧ VectorPy.v3isclose a a = true ∧ VectorPy.v3isclose a b = VectorPy.v3isclose b a
+    ∧ VectorPyx.v2isclose p p = true ∧ VectorPyx.v2isclose p q = VectorPyx.v2isclose q p
+    ∧ (∃ x y z : V3, VectorPyx.v3isclose x y = true ∧ VectorPyx.v3isclose y z = true ∧ VectorPyx.v3isclose x z = false) := by
+  have e2 : ∀ u v : V3, VectorPyx.v3isclose2 u v rel ab = ((ic rel ab u.x v.x && ic rel ab u.y v.y) && ic rel ab u.z v.z) :=
+    fun _ _ => rfl
+  have e1 : ∀ u v : V3, VectorPyx.v3isclose u v
+      = ((ic ((4835703278458517 : Rat) / 4835703278458516698824704) ((4951760157141521 : Rat) / 4951760157141521099596496896) u.x v.x
+        && ic ((4835703278458517 : Rat) / 4835703278458516698824704) ((4951760157141521 : Rat) / 4951760157141521099596496896) u.y v.y)
+        && ic ((4835703278458517 : Rat) / 4835703278458516698824704) ((4951760157141521 : Rat) / 4951760157141521099596496896) u.z v.z) :=
+    fun _ _ => rfl
+  have e0 : ∀ u v : V2, VectorPyx.v2isclose u v
+      = (ic ((4835703278458517 : Rat) / 4835703278458516698824704) ((4951760157141521 : Rat) / 4951760157141521099596496896) u.x v.x
+        && ic ((4835703278458517 : Rat) / 4835703278458516698824704) ((4951760157141521 : Rat) / 4951760157141521099596496896) u.y v.y) :=
+    fun _ _ => rfl
+  have hpy : ∀ u v : V3, VectorPy.v3isclose u v = VectorPyx.v3isclose u v := fun u v => ((twins_agree_isclose u v p q).1).symm
+  refine ⟨?_, ?_, ?_, ?_, ?_, ?_, ?_, ?_, ?_⟩
+  · rw [e2]; simp [ic_refl]
+  · rw [e2, e2, ic_symm rel ab a.x, ic_symm rel ab a.y, ic_symm rel ab a.z]
+  · rw [e1]; simp [ic_refl]
+  · rw [e1, e1, ic_symm _ _ a.x, ic_symm _ _ a.y, ic_symm _ _ a.z]
+  · rw [hpy, e1]; simp [ic_refl]
+  · rw [hpy, hpy, e1, e1, ic_symm _ _ a.x, ic_symm _ _ a.y, ic_symm _ _ a.z]
+  · rw [e0]; simp [ic_refl]
+  · rw [e0, e0, ic_symm _ _ p.x, ic_symm _ _ p.y]
+  · exact ⟨⟨0, 0, 0⟩, ⟨9 / 10000000000000, 0, 0⟩, ⟨18 / 10000000000000, 0, 0⟩, by decide +kernel, by decide +kernel, by decide +kernel⟩
+
+/-- `is_parallel` is symmetric: a ∥ b ⇔ b ∥ a (with the two roots exchanged), error cases included -/
+theorem is_parallel_symm (a b : V3) (r1 r2 : Rat) :
+    VectorPyx.v3isparallel a b r1 r2 = VectorPyx.v3isparallel b a r2 r1 := by
+  by_cases h1 : r1 = 0
+  · by_cases h2 : r2 = 0 <;> simp [VectorPyx.v3isparallel, h1, h2]
+  by_cases h2 : r2 = 0
+  · simp [VectorPyx.v3isparallel, h1, h2]
+  have e : ∀ (u v : V3) (s t : Rat), s ≠ 0 → t ≠ 0 → VectorPyx.v3isparallel u v s t = .ok
+      (((ic ((4835703278458517 : Rat) / 4835703278458516698824704) ((4951760157141521 : Rat) / 4951760157141521099596496896) (u.x * (1 / s)) (v.x * (1 / t))
+        && ic ((4835703278458517 : Rat) / 4835703278458516698824704) ((4951760157141521 : Rat) / 4951760157141521099596496896) (u.y * (1 / s)) (v.y * (1 / t)))
+        && ic ((4835703278458517 : Rat) / 4835703278458516698824704) ((4951760157141521 : Rat) / 4951760157141521099596496896) (u.z * (1 / s)) (v.z * (1 / t)))
+      || ((ic ((4835703278458517 : Rat) / 4835703278458516698824704) ((4951760157141521 : Rat) / 4951760157141521099596496896) (u.x * (1 / s)) (-(v.x * (1 / t)))
+        && ic ((4835703278458517 : Rat) / 4835703278458516698824704) ((4951760157141521 : Rat) / 4951760157141521099596496896) (u.y * (1 / s)) (-(v.y * (1 / t))))
+        && ic ((4835703278458517 : Rat) / 4835703278458516698824704) ((4951760157141521 : Rat) / 4951760157141521099596496896) (u.z * (1 / s)) (-(v.z * (1 / t))))) := by
+    intro u v s t hs ht
+    simp only [VectorPyx.v3isparallel, if_neg hs, if_neg ht]
+    rfl
+  rw [e a b r1 r2 h1 h2, e b a r2 r1 h2 h1]
+  rw [ic_symm _ _ (a.x * (1 / r1)), ic_symm _ _ (a.y * (1 / r1)), ic_symm _ _ (a.z * (1 / r1)),
+    ic_symm_neg _ _ (a.x * (1 / r1)), ic_symm_neg _ _ (a.y * (1 / r1)), ic_symm_neg _ _ (a.z * (1 / r1))]
+
+/-- `basic_transformation(move, scale, z_rotation)` in general: scale, THEN rotate about z, THEN translate
+    (row-vector convention: S·R·T).  `nz` is the truth value of the angle (`if z_rotation:`), under which the code
+    skips the rotation; for the angle 0.0 that changes nothing (c = 1, s = 0).  The translation is skipped when
+    `move.is_null`. -/
+theorem basic_transformation_full (move scale v : V3) (nz : Bool) (c s : Rat) (hz : nz = false → c = 1 ∧ s = 0) :
+    ConstructPyx.basicT move scale nz c s
+      = (if VectorPyx.v3isnull move = true
+         then M44.mul (Matrix44Pyx.scale scale.x scale.y scale.z) (Matrix44Pyx.zRotate c s)
+         else M44.mul (M44.mul (Matrix44Pyx.scale scale.x scale.y scale.z) (Matrix44Pyx.zRotate c s))
+                (Matrix44Pyx.translate move.x move.y move.z))
+    ∧ M44.IsAffine (ConstructPyx.basicT move scale nz c s)
+    ∧ Matrix44Pyx.transform (ConstructPyx.basicT move scale nz c s) v
+      = (if VectorPyx.v3isnull move = true
+         then ⟨c * (v.x * scale.x) - s * (v.y * scale.y), s * (v.x * scale.x) + c * (v.y * scale.y), v.z * scale.z⟩
+         else ⟨c * (v.x * scale.x) - s * (v.y * scale.y) + move.x, s * (v.x * scale.x) + c * (v.y * scale.y) + move.y,
+               v.z * scale.z + move.z⟩) := by
+  have h1 : ConstructPyx.basicT move scale nz c s
+      = (if VectorPyx.v3isnull move = true
+         then M44.mul (Matrix44Pyx.scale scale.x scale.y scale.z) (Matrix44Pyx.zRotate c s)
+         else M44.mul (M44.mul (Matrix44Pyx.scale scale.x scale.y scale.z) (Matrix44Pyx.zRotate c s))
+                (Matrix44Pyx.translate move.x move.y move.z)) := by
+    unfold ConstructPyx.basicT VectorPyx.v3isnull
+    by_cases h : ((pyAbs move.x) ≤ ((4951760157141521 : Rat) / 4951760157141521099596496896)
+        ∧ (pyAbs move.y) ≤ ((4951760157141521 : Rat) / 4951760157141521099596496896))
+        ∧ (pyAbs move.z) ≤ ((4951760157141521 : Rat) / 4951760157141521099596496896)
+    · have hb : ((decide ((pyAbs move.x) ≤ ((4951760157141521 : Rat) / 4951760157141521099596496896))
+          && decide ((pyAbs move.y) ≤ ((4951760157141521 : Rat) / 4951760157141521099596496896)))
+          && decide ((pyAbs move.z) ≤ ((4951760157141521 : Rat) / 4951760157141521099596496896))) = true := by
+        simp [h.1.1, h.1.2, h.2]
+      rw [if_neg (not_not.mpr h), if_neg (not_not.mpr h), if_pos hb]
+      cases nz
+      · obtain ⟨hc, hs⟩ := hz rfl
+        subst hc hs
+        simp only [Bool.false_eq_true, if_false, M44.mul, Matrix44Pyx.scale, Matrix44Pyx.zRotate, M44.mk.injEq]
+        refine ⟨?_, ?_, ?_, ?_, ?_, ?_, ?_, ?_, ?_, ?_, ?_, ?_, ?_, ?_, ?_, ?_⟩ <;> ring
+      · simp only [if_true, M44.mul, Matrix44Pyx.scale, Matrix44Pyx.zRotate, M44.mk.injEq]
+        refine ⟨?_, ?_, ?_, ?_, ?_, ?_, ?_, ?_, ?_, ?_, ?_, ?_, ?_, ?_, ?_, ?_⟩ <;> ring
+    · have hb : ¬ (((decide ((pyAbs move.x) ≤ ((4951760157141521 : Rat) / 4951760157141521099596496896))
+          && decide ((pyAbs move.y) ≤ ((4951760157141521 : Rat) / 4951760157141521099596496896)))
+          && decide ((pyAbs move.z) ≤ ((4951760157141521 : Rat) / 4951760157141521099596496896))) = true) := by
+        simp only [Bool.and_eq_true, decide_eq_true_eq]; exact h
+      rw [if_pos h, if_pos h, if_neg hb]
+      cases nz
+      · obtain ⟨hc, hs⟩ := hz rfl
+        subst hc hs
+        simp only [Bool.false_eq_true, if_false, M44.mul, Matrix44Pyx.scale, Matrix44Pyx.zRotate, Matrix44Pyx.translate,
+          M44.mk.injEq]
+        refine ⟨?_, ?_, ?_, ?_, ?_, ?_, ?_, ?_, ?_, ?_, ?_, ?_, ?_, ?_, ?_, ?_⟩ <;> ring
+      · simp only [if_true, M44.mul, Matrix44Pyx.scale, Matrix44Pyx.zRotate, Matrix44Pyx.translate, M44.mk.injEq]
+        refine ⟨?_, ?_, ?_, ?_, ?_, ?_, ?_, ?_, ?_, ?_, ?_, ?_, ?_, ?_, ?_, ?_⟩ <;> ring
+  have hS : M44.IsAffine (Matrix44Pyx.scale scale.x scale.y scale.z) := (scale_spec _ _ _ v).2.2.1
+  have hR : M44.IsAffine (Matrix44Pyx.zRotate c s) := by simp [M44.IsAffine, Matrix44Pyx.zRotate]
+  have hT : M44.IsAffine (Matrix44Pyx.translate move.x move.y move.z) := (translate_spec _ _ _ v).2.2.1
+  have hSR := affine_mul _ _ hS hR
+  have tSR : Matrix44Pyx.transform (M44.mul (Matrix44Pyx.scale scale.x scale.y scale.z) (Matrix44Pyx.zRotate c s)) v
+      = ⟨c * (v.x * scale.x) - s * (v.y * scale.y), s * (v.x * scale.x) + c * (v.y * scale.y), v.z * scale.z⟩ := by
+    show Matrix44Pyx.transform (Matrix44Pyx.mul _ _) v = _
+    rw [transform_mul _ _ v hS, (scale_spec _ _ _ v).1]
+    simp only [Matrix44Pyx.zRotate, Matrix44Pyx.transform, V3.mk.injEq]
+    refine ⟨?_, ?_, ?_⟩ <;> ring
+  refine ⟨h1, ?_, ?_⟩
+  · rw [h1]; split
+    · exact hSR
+    · exact affine_mul _ _ hSR hT
+  · rw [h1]; split
+    · exact tSR
+    · show Matrix44Pyx.transform (Matrix44Pyx.mul _ _) v = _
+      rw [transform_mul _ _ v hSR, tSR, (translate_spec _ _ _ _).1]
+
+example : ConstructPyx.basicT ⟨1, 2, 3⟩ ⟨2, 2, 2⟩ true 0 1
+    = ⟨0, 2, 0, 0, -2, 0, 0, 0, 0, 0, 2, 0, 1, 2, 3, 1⟩ := by decide +kernel
+
+/-! ## 16. UCS rotations (new objects): structure, and the cartesian case -/
+
+/-- handedness of an orthonormal frame is its determinant: ux × uy = det · uz, and det = ±1 -/
+theorem rigid_handedness (m : M44) (h : IsRigid m) :
+    V3.cross m.ux m.uy = V3.smul (M44.det m) m.uz ∧ M44.det m * M44.det m = 1
+    ∧ M44.det m = V3.triple m.ux m.uy m.uz := by
+  obtain ⟨⟨h3, h7, h11, h15⟩, ho⟩ := h
+  obtain ⟨c00, c11, c22, c01, c02, c12⟩ := orthonormal_cols m ho
+  obtain ⟨hxx, hyy, hzz, hxy, hxz, hyz⟩ := ho
+  simp only [V3.dot, M44.ux, M44.uy, M44.uz] at hxx hyy hzz hxy hxz hyz
+  have hdet : M44.det m = V3.triple m.ux m.uy m.uz := by
+    simp only [M44.det, M44.det3, V3.triple, V3.dot, V3.cross, M44.ux, M44.uy, M44.uz, h3, h7, h11, h15]; ring
+  have hw : V3.cross m.ux m.uy = V3.smul (V3.triple m.ux m.uy m.uz) m.uz := by
+    simp only [V3.triple, V3.dot, V3.cross, V3.smul, M44.ux, M44.uy, M44.uz, V3.mk.injEq]
+    refine ⟨?_, ?_, ?_⟩
+    · linear_combination (-(m.m1 * m.m6 - m.m2 * m.m5)) * c00 - (m.m2 * m.m4 - m.m0 * m.m6) * c01 - (m.m0 * m.m5 - m.m1 * m.m4) * c02
+    · linear_combination (-(m.m1 * m.m6 - m.m2 * m.m5)) * c01 - (m.m2 * m.m4 - m.m0 * m.m6) * c11 - (m.m0 * m.m5 - m.m1 * m.m4) * c12
+    · linear_combination (-(m.m1 * m.m6 - m.m2 * m.m5)) * c02 - (m.m2 * m.m4 - m.m0 * m.m6) * c12 - (m.m0 * m.m5 - m.m1 * m.m4) * c22
+  refine ⟨by rw [hdet]; exact hw, ?_, hdet⟩
+  rw [hdet]
+  simp only [V3.triple, V3.dot, V3.cross, V3.smul, M44.ux, M44.uy, M44.uz, V3.mk.injEq] at hw ⊢
+  obtain ⟨wx, wy, wz⟩ := hw
+  linear_combination (-(m.m1 * m.m6 - m.m2 * m.m5)) * wx + (-(m.m2 * m.m4 - m.m0 * m.m6)) * wy
+    + (-(m.m0 * m.m5 - m.m1 * m.m4)) * wz
+    + (m.m4 * m.m4 + m.m5 * m.m5 + m.m6 * m.m6) * hxx + hyy - (m.m0 * m.m4 + m.m1 * m.m5 + m.m2 * m.m6) * hxy
+
+
+private theorem rigid_of_mul_transpose (r : M44) (ha : M44.IsAffine r) (h : M44.mul r (M44.transpose r) = M44.identity) :
+    IsRigid r := by
+  obtain ⟨h3, h7, h11, h15⟩ := ha
+  simp only [M44.mul, M44.transpose, M44.identity, M44.mk.injEq, h3, h7, h11, h15] at h
+  obtain ⟨e00, e01, e02, _, _, e11, e12, _, _, _, e22, _⟩ := h
+  refine ⟨⟨h3, h7, h11, h15⟩, ?_, ?_, ?_, ?_, ?_, ?_⟩ <;> simp only [V3.dot, M44.ux, M44.uy, M44.uz] <;> linarith
+
+/-- STRUCTURE of the four rotations that return a new UCS (any UCS whose matrix has a zero 4th column above the 1;
+    R = `Matrix44.axis_rotate(axis, θ)`, P = s·R): `rotate` normalises the three rows of P and keeps the origin of s;
+    `rotate_local_x/y/z` take the own axis as rotation axis, rotate the two OTHER axes and keep that axis (divided by
+    its length r1, which is also the length `axis_rotate` divides by) -/
+theorem ucs_rotate_structure (s : M44) (axis : V3) (c sn r1 r2 r3 r4 : Rat)
+    (h3 : s.m3 = 0) (h7 : s.m7 = 0) (h11 : s.m11 = 0)
+    (n1 : r1 ≠ 0) (n2 : r2 ≠ 0) (n3 : r3 ≠ 0) (n4 : r4 ≠ 0) :
+    (∃ R, Matrix44Pyx.axisRotate axis c sn r1 = .ok R ∧
+      UcsPyx.ucsRotate s axis c sn r1 r2 r3 r4 = .ok (Matrix44Pyx.ucs (V3.smul (1 / r2) (M44.mul s R).ux)
+        (V3.smul (1 / r3) (M44.mul s R).uy) (V3.smul (1 / r4) (M44.mul s R).uz) s.origin)
+      ∧ UcsPy.ucsRotate s axis c sn r1 r2 r3 r4 = UcsPyx.ucsRotate s axis c sn r1 r2 r3 r4)
+    ∧ (∃ R, Matrix44Pyx.axisRotate s.ux c sn r1 = .ok R ∧
+      UcsPyx.ucsRotateLocalX s c sn r1 r2 r3 = .ok (Matrix44Pyx.ucs (V3.smul (1 / r1) s.ux)
+        (V3.smul (1 / r2) (M44.mul s R).uy) (V3.smul (1 / r3) (M44.mul s R).uz) s.origin)
+      ∧ UcsPy.ucsRotateLocalX s c sn r1 r2 r3 = UcsPyx.ucsRotateLocalX s c sn r1 r2 r3)
+    ∧ (∃ R, Matrix44Pyx.axisRotate s.uy c sn r1 = .ok R ∧
+      UcsPyx.ucsRotateLocalY s c sn r1 r2 r3 = .ok (Matrix44Pyx.ucs (V3.smul (1 / r2) (M44.mul s R).ux)
+        (V3.smul (1 / r1) s.uy) (V3.smul (1 / r3) (M44.mul s R).uz) s.origin)
+      ∧ UcsPy.ucsRotateLocalY s c sn r1 r2 r3 = UcsPyx.ucsRotateLocalY s c sn r1 r2 r3)
+    ∧ (∃ R, Matrix44Pyx.axisRotate s.uz c sn r1 = .ok R ∧
+      UcsPyx.ucsRotateLocalZ s c sn r1 r2 r3 = .ok (Matrix44Pyx.ucs (V3.smul (1 / r2) (M44.mul s R).ux)
+        (V3.smul (1 / r3) (M44.mul s R).uy) (V3.smul (1 / r1) s.uz) s.origin)
+      ∧ UcsPy.ucsRotateLocalZ s c sn r1 r2 r3 = UcsPyx.ucsRotateLocalZ s c sn r1 r2 r3) := by
+  refine ⟨⟨_, by simp only [Matrix44Pyx.axisRotate, if_neg n1]; rfl, ?_, rfl⟩,
+    ⟨_, by simp only [Matrix44Pyx.axisRotate, if_neg n1]; rfl, ?_, rfl⟩,
+    ⟨_, by simp only [Matrix44Pyx.axisRotate, if_neg n1]; rfl, ?_, rfl⟩,
+    ⟨_, by simp only [Matrix44Pyx.axisRotate, if_neg n1]; rfl, ?_, rfl⟩⟩
+  · simp only [UcsPyx.ucsRotate, if_neg n1, if_neg n2, if_neg n3, if_neg n4, Matrix44Pyx.ucs, M44.mul, M44.ux, M44.uy,
+      M44.uz, M44.origin, V3.smul, Except.ok.injEq, M44.mk.injEq, h3, h7, h11]
+    refine ⟨?_, ?_, ?_, ?_, ?_, ?_, ?_, ?_, ?_, ?_, ?_, ?_, ?_, ?_, ?_, ?_⟩ <;> first | trivial | ring
+  · simp only [UcsPyx.ucsRotateLocalX, if_neg n1, if_neg n2, if_neg n3, Matrix44Pyx.ucs, M44.mul, M44.ux, M44.uy,
+      M44.uz, M44.origin, V3.smul, Except.ok.injEq, M44.mk.injEq, h3, h7, h11]
+    refine ⟨?_, ?_, ?_, ?_, ?_, ?_, ?_, ?_, ?_, ?_, ?_, ?_, ?_, ?_, ?_, ?_⟩ <;> first | trivial | ring
+  · simp only [UcsPyx.ucsRotateLocalY, if_neg n1, if_neg n2, if_neg n3, Matrix44Pyx.ucs, M44.mul, M44.ux, M44.uy,
+      M44.uz, M44.origin, V3.smul, Except.ok.injEq, M44.mk.injEq, h3, h7, h11]
+    refine ⟨?_, ?_, ?_, ?_, ?_, ?_, ?_, ?_, ?_, ?_, ?_, ?_, ?_, ?_, ?_, ?_⟩ <;> first | trivial | ring
+  · simp only [UcsPyx.ucsRotateLocalZ, if_neg n1, if_neg n2, if_neg n3, Matrix44Pyx.ucs, M44.mul, M44.ux, M44.uy,
+      M44.uz, M44.origin, V3.smul, Except.ok.injEq, M44.mk.injEq, h3, h7, h11]
+    refine ⟨?_, ?_, ?_, ?_, ?_, ?_, ?_, ?_, ?_, ?_, ?_, ?_, ?_, ?_, ?_, ?_⟩ <;> first | trivial | ring
+
+
+private theorem rigid_ucs_rows (p : M44) (o : V3) (hp : IsRigid p) :
+    IsRigid (Matrix44Pyx.ucs p.ux p.uy p.uz o) ∧ M44.det (Matrix44Pyx.ucs p.ux p.uy p.uz o) = M44.det p := by
+  obtain ⟨⟨h3, h7, h11, h15⟩, ho⟩ := hp
+  refine ⟨⟨by simp [M44.IsAffine, Matrix44Pyx.ucs], ho⟩, ?_⟩
+  simp only [M44.det, M44.det3, Matrix44Pyx.ucs, M44.ux, M44.uy, M44.uz, h3, h7, h11, h15]; ring
+
+private theorem smul_one' (v : V3) : V3.smul (1 / 1) v = v := by cases v; simp [V3.smul]
+
+set_option maxRecDepth 4000 in
+/-- the rotations of a CARTESIAN UCS s (c² + s² = 1): the roots taken after `axis_rotate` are all 1, the result is
+    again cartesian, has the origin and the handedness (determinant) of s, and its axes are the rows of s·R;
+    `rotate_local_z` keeps the z-axis (x, y analogous: `ucs_rotate_structure`) -/
+theorem ucs_rotate_cartesian (s : M44) (axis : V3) (c sn r1 : Rat) (hs : IsRigid s) (hcs : c * c + sn * sn = 1) :
+    (r1 * r1 = Matrix44Pyx.axisRotate_rad1 axis c sn → r1 ≠ 0 →
+      ∃ R m, Matrix44Pyx.axisRotate axis c sn r1 = .ok R
+        ∧ UcsPyx.ucsRotate_rad2 s axis c sn r1 = 1 ∧ UcsPyx.ucsRotate_rad3 s axis c sn r1 1 = 1
+        ∧ UcsPyx.ucsRotate_rad4 s axis c sn r1 1 1 = 1
+        ∧ UcsPyx.ucsRotate s axis c sn r1 1 1 1 = .ok m ∧ UcsPy.ucsRotate s axis c sn r1 1 1 1 = .ok m
+        ∧ m.origin = s.origin ∧ m.ux = (M44.mul s R).ux ∧ m.uy = (M44.mul s R).uy ∧ m.uz = (M44.mul s R).uz
+        ∧ IsRigid m ∧ M44.det m = M44.det s)
+    ∧ (Matrix44Pyx.axisRotate_rad1 s.uz c sn = 1
+      ∧ ∃ R m, Matrix44Pyx.axisRotate s.uz c sn 1 = .ok R
+        ∧ UcsPyx.ucsRotateLocalZ_rad2 s c sn 1 = 1 ∧ UcsPyx.ucsRotateLocalZ_rad3 s c sn 1 1 = 1
+        ∧ UcsPyx.ucsRotateLocalZ s c sn 1 1 1 = .ok m ∧ UcsPy.ucsRotateLocalZ s c sn 1 1 1 = .ok m
+        ∧ m.origin = s.origin ∧ m.uz = s.uz ∧ m.ux = (M44.mul s R).ux ∧ m.uy = (M44.mul s R).uy
+        ∧ IsRigid m ∧ M44.det m = M44.det s) := by
+  have one : (1 : Rat) ≠ 0 := one_ne_zero
+  have h3 := hs.1.1
+  have h7 := hs.1.2.1
+  have h11 := hs.1.2.2.1
+  constructor
+  · intro hr hr0
+    obtain ⟨R, hR, hRT, hRdet, hRa, _, _⟩ := axis_rotate_spec axis c sn r1 hcs hr hr0
+    have hRr : IsRigid R := rigid_of_mul_transpose R hRa hRT
+    have hP : IsRigid (M44.mul s R) := rigid_mul s R hs hRr
+    have hdetP : M44.det (M44.mul s R) = M44.det s := by rw [det_mul, hRdet, mul_one]
+    obtain ⟨⟨R', hR', hk, hk'⟩, _⟩ := ucs_rotate_structure s axis c sn r1 1 1 1 h3 h7 h11 hr0 one one one
+    rw [hR] at hR'; cases hR'
+    rw [smul_one', smul_one', smul_one'] at hk
+    obtain ⟨hm1, hm2⟩ := rigid_ucs_rows (M44.mul s R) s.origin hP
+    have hRe := hR
+    simp only [Matrix44Pyx.axisRotate, if_neg hr0, Except.ok.injEq] at hRe
+    obtain ⟨_, pxx, pyy, pzz, _, _, _⟩ := hP
+    refine ⟨R, _, hR, ?_, ?_, ?_, hk, by rw [hk', hk], rfl, rfl, rfl, rfl, hm1, by rw [hm2, hdetP]⟩
+    · refine Eq.trans ?_ pxx; rw [← hRe]; simp only [UcsPyx.ucsRotate_rad2, V3.dot, M44.ux, M44.mul]; ring
+    · refine Eq.trans ?_ pyy; rw [← hRe]; simp only [UcsPyx.ucsRotate_rad3, V3.dot, M44.uy, M44.mul]; ring
+    · refine Eq.trans ?_ pzz; rw [← hRe]; simp only [UcsPyx.ucsRotate_rad4, V3.dot, M44.uz, M44.mul]; ring
+  · have hzz : Matrix44Pyx.axisRotate_rad1 s.uz c sn = 1 := by
+      have := hs.2.2.2.1
+      simp only [V3.dot] at this
+      simp only [Matrix44Pyx.axisRotate_rad1]; exact this
+    refine ⟨hzz, ?_⟩
+    obtain ⟨R, hR, hRT, hRdet, hRa, hfix, _⟩ := axis_rotate_spec s.uz c sn 1 hcs (by rw [hzz]; ring) one
+    have hRr : IsRigid R := rigid_of_mul_transpose R hRa hRT
+    have hP : IsRigid (M44.mul s R) := rigid_mul s R hs hRr
+    have hdetP : M44.det (M44.mul s R) = M44.det s := by rw [det_mul, hRdet, mul_one]
+    obtain ⟨_, _, _, ⟨R', hR', hk, hk'⟩⟩ := ucs_rotate_structure s s.uz c sn 1 1 1 1 h3 h7 h11 one one one one
+    rw [hR] at hR'; cases hR'
+    rw [smul_one', smul_one', smul_one'] at hk
+    -- the kept z-axis is the rotated one: R fixes its own axis
+    have hz : (M44.mul s R).uz = s.uz := by
+      have h0 : R.m12 = 0 ∧ R.m13 = 0 ∧ R.m14 = 0 := by
+        have hRe := hR
+        simp only [Matrix44Pyx.axisRotate, if_neg one, Except.ok.injEq] at hRe
+        rw [← hRe]; exact ⟨rfl, rfl, rfl⟩
+      simp only [Matrix44Pyx.transform, M44.uz, V3.mk.injEq] at hfix
+      obtain ⟨f1, f2, f3⟩ := hfix
+      simp only [M44.uz, M44.mul, V3.mk.injEq, h11]
+      refine ⟨by linear_combination f1 - h0.1, by linear_combination f2 - h0.2.1, by linear_combination f3 - h0.2.2⟩
+    rw [← hz] at hk
+    obtain ⟨hm1, hm2⟩ := rigid_ucs_rows (M44.mul s R) s.origin hP
+    have hRe := hR
+    simp only [Matrix44Pyx.axisRotate, if_neg one, Except.ok.injEq] at hRe
+    obtain ⟨_, pxx, pyy, _, _, _, _⟩ := hP
+    refine ⟨R, _, hR, ?_, ?_, hk, by rw [hk', hk], rfl, hz, rfl, rfl, hm1, by rw [hm2, hdetP]⟩
+    · refine Eq.trans ?_ pxx; rw [← hRe]; simp only [UcsPyx.ucsRotateLocalZ_rad2, V3.dot, M44.ux, M44.uz, M44.mul]; ring
+    · refine Eq.trans ?_ pyy; rw [← hRe]; simp only [UcsPyx.ucsRotateLocalZ_rad3, V3.dot, M44.uy, M44.uz, M44.mul]; ring
+
+/-! ## 17. The same laws for ucs.py linked against the pure-Python classes -/
+
+/-- OCS round trip for EVERY non-zero extrusion, Python linking (`ocs_roundtrip_all` is the Cython linking) -/
+theorem ocs_roundtrip_all_py (n : V3) (r1 r2 r3 : Rat) (p : V3)
+    (h1 : 0 < r1) (e1 : r1 * r1 = UcsPy.ocsInit_rad1 n)
+    (h2 : 0 ≤ r2) (e2 : r2 * r2 = UcsPy.ocsInit_rad2 n r1)
+    (h3 : 0 ≤ r3) (e3 : r3 * r3 = UcsPy.ocsInit_rad3 n r1 r2) :
+    ∃ t m, UcsPy.ocsInit n r1 r2 r3 = .ok (t, m) ∧
+      UcsPy.ocsToWcs t m (UcsPy.ocsFromWcs t m p) = p ∧ UcsPy.ocsFromWcs t m (UcsPy.ocsToWcs t m p) = p := by
+  obtain ⟨t, m, hm, _, _, hf, ht⟩ := ocs_axes_py n r1 r2 r3 h1 e1 h2 e2 h3 e3
+  refine ⟨t, m, hm, ?_⟩
+  have ho : Orthonormal m := by
+    cases t
+    · rw [hf rfl]; decide +kernel
+    · exact (ht rfl).2.2.2.2.2.2.1
+  obtain ⟨_, _, a, b⟩ := ocs_roundtrip t m ho p
+  exact ⟨a, b⟩
+
+/-- `to_ocs` of the Python linking: the same function of the current matrix, for the Python-linked machine `runPy` -/
+theorem ucs_history_to_ocs_py (s : M44) (ops : List Op) (p : V3) (r1 r2 r3 : Rat)
+    (h1 : 0 < r1) (e1 : r1 * r1 = UcsPy.ocsInit_rad1 (runPy s ops).uz)
+    (h2 : 0 ≤ r2) (e2 : r2 * r2 = UcsPy.ocsInit_rad2 (runPy s ops).uz r1)
+    (h3 : 0 ≤ r3) (e3 : r3 * r3 = UcsPy.ocsInit_rad3 (runPy s ops).uz r1 r2) :
+    runPy s ops = run s ops
+    ∧ ∃ t m, UcsPy.ocsInit (runPy s ops).uz r1 r2 r3 = .ok (t, m)
+      ∧ UcsPy.ucsToOcs (runPy s ops) p r1 r2 r3 = .ok (UcsPy.ocsFromWcs t m (UcsPy.ucsToWcs (runPy s ops) p))
+      ∧ UcsPy.ocsToWcs t m (UcsPy.ocsFromWcs t m (UcsPy.ucsToWcs (runPy s ops) p)) = UcsPy.ucsToWcs (runPy s ops) p := by
+  have hrun : runPy s ops = run s ops := by
+    have hstep : stepPy = step := by funext st op; exact (ucs_step_spec st st p p).2.2.2.2 op
+    unfold runPy run
+    rw [hstep]
+  refine ⟨hrun, ?_⟩
+  obtain ⟨t, m, hm, _, _, hf, ht⟩ := ocs_axes_py (runPy s ops).uz r1 r2 r3 h1 e1 h2 e2 h3 e3
+  have hspec : UcsPy.ucsToOcs (runPy s ops) p r1 r2 r3
+      = (UcsPy.ocsInit (runPy s ops).uz r1 r2 r3).map
+          (fun tm => UcsPy.ocsFromWcs tm.1 tm.2 (UcsPy.ucsToWcs (runPy s ops) p)) := by
+    unfold UcsPy.ucsToOcs UcsPy.ocsInit
+    refine ite_map _ _ _ _ _ rfl ?_
+    refine ite_map _ _ _ _ _ ?_ rfl
+    refine ite_map _ _ _ _ _ ?_ ?_ <;>
+    · refine ite_map _ _ _ _ _ rfl ?_
+      exact ite_map _ _ _ _ _ rfl rfl
+  refine ⟨t, m, hm, by rw [hspec, hm]; rfl, ?_⟩
+  have ho : Orthonormal m := by
+    cases t
+    · rw [hf rfl]; decide +kernel
+    · exact (ht rfl).2.2.2.2.2.2.1
+  exact (ocs_roundtrip t m ho _).2.2.1
+
+/-! ## 18. Constructor decoding and polar construction -/
+
+/-- every documented argument form of the constructors decodes to the same components in both twins (the Python
+    `Vec3.decompose` and the Cython `__cinit__` are written independently): missing z is 0, a Vec2 is lifted with
+    z = 0, a Vec3 is cut to (x, y) by Vec2, tuples and lists are unpacked -/
+theorem vec_ctor_spec (a b c : Rat) (p : V2) (v : V3) :
+    VectorPyx.v3ctor0 = ⟨0, 0, 0⟩ ∧ VectorPyx.v3ctor2 a b = ⟨a, b, 0⟩ ∧ VectorPyx.v3ctor3 a b c = ⟨a, b, c⟩
+    ∧ VectorPyx.v3ctorT2 a b = ⟨a, b, 0⟩ ∧ VectorPyx.v3ctorT3 a b c = ⟨a, b, c⟩ ∧ VectorPyx.v3ctorL3 a b c = ⟨a, b, c⟩
+    ∧ VectorPyx.v3ctorV2 p = ⟨p.x, p.y, 0⟩ ∧ VectorPyx.v3ctorV3 v = v
+    ∧ VectorPyx.v2ctor0 = ⟨0, 0⟩ ∧ VectorPyx.v2ctor2 a b = ⟨a, b⟩ ∧ VectorPyx.v2ctorT2 a b = ⟨a, b⟩
+    ∧ VectorPyx.v2ctorT3 a b c = ⟨a, b⟩ ∧ VectorPyx.v2ctorV3 v = ⟨v.x, v.y⟩ ∧ VectorPyx.v2ctorV2 p = p
+    ∧ VectorPy.v3ctor0 = VectorPyx.v3ctor0 ∧ VectorPy.v3ctor2 = VectorPyx.v3ctor2 ∧ VectorPy.v3ctor3 = VectorPyx.v3ctor3
+    ∧ VectorPy.v3ctorT2 = VectorPyx.v3ctorT2 ∧ VectorPy.v3ctorT3 = VectorPyx.v3ctorT3 ∧ VectorPy.v3ctorL3 = VectorPyx.v3ctorL3
+    ∧ VectorPy.v3ctorV2 = VectorPyx.v3ctorV2 ∧ VectorPy.v3ctorV3 = VectorPyx.v3ctorV3
+    ∧ VectorPy.v2ctor0 = VectorPyx.v2ctor0 ∧ VectorPy.v2ctor2 = VectorPyx.v2ctor2 ∧ VectorPy.v2ctorT2 = VectorPyx.v2ctorT2
+    ∧ VectorPy.v2ctorT3 = VectorPyx.v2ctorT3 ∧ VectorPy.v2ctorV3 = VectorPyx.v2ctorV3 ∧ VectorPy.v2ctorV2 = VectorPyx.v2ctorV2 := by
+  refine ⟨rfl, rfl, rfl, rfl, rfl, rfl, rfl, rfl, rfl, rfl, rfl, rfl, rfl, rfl, rfl, rfl, rfl, rfl, rfl, rfl, rfl, rfl, rfl, rfl, rfl,
+    rfl, rfl, rfl⟩
+
+/-- `from_angle(θ, k)` = (k cos θ, k sin θ[, 0]): squared length k², both twins -/
+theorem from_angle_spec (k c s : Rat) (h : c * c + s * s = 1) :
+    VectorPyx.v3fromAngle k c s = ⟨c * k, s * k, 0⟩ ∧ VectorPyx.v2fromAngle k c s = ⟨c * k, s * k⟩
+    ∧ VectorPy.v3fromAngle = VectorPyx.v3fromAngle ∧ VectorPy.v2fromAngle = VectorPyx.v2fromAngle
+    ∧ VectorPyx.v3magsq (VectorPyx.v3fromAngle k c s) = k * k := by
+  refine ⟨rfl, rfl, rfl, rfl, ?_⟩
+  simp only [VectorPyx.v3magsq, VectorPyx.v3fromAngle]
+  linear_combination (k * k) * h
+
+/-- `__hash__` (AST of the current source: `return hash(<E>)`, E regenerated as a kernel): the hash is a function of
+    exactly the component tuple in both twins, so `==` vectors hash alike for ANY tuple hash, and the hashed tuple
+    determines the vector (collisions can only come from Python's tuple hash) -/
+theorem hash_spec (a b : V3) (p q : V2) {H : Type} (hash3 : Rat × Rat × Rat → H) (hash2 : Rat × Rat → H) :
+    VectorPyx.v3hashArg a = (a.x, a.y, a.z) ∧ VectorPy.v3hashArg a = (a.x, a.y, a.z)
+    ∧ VectorPyx.v2hashArg p = (p.x, p.y) ∧ VectorPy.v2hashArg p = (p.x, p.y)
+    ∧ (VectorPyx.v3eq a b = true → hash3 (VectorPyx.v3hashArg a) = hash3 (VectorPyx.v3hashArg b))
+    ∧ (VectorPyx.v2eq p q = true → hash2 (VectorPyx.v2hashArg p) = hash2 (VectorPyx.v2hashArg q))
+    ∧ (VectorPyx.v3hashArg a = VectorPyx.v3hashArg b → a = b) ∧ (VectorPyx.v2hashArg p = VectorPyx.v2hashArg q → p = q) := by
+  refine ⟨rfl, rfl, rfl, rfl, ?_, ?_, ?_, ?_⟩
+  · intro h; rw [((eq_spec a b p q hash3).1).1 h]
+  · intro h; rw [((eq_spec a b p q hash3).2.2.1).1 h]
+  · intro h
+    cases a; cases b
+    simp only [VectorPyx.v3hashArg, Prod.mk.injEq] at h
+    obtain ⟨h1, h2, h3⟩ := h
+    subst h1 h2 h3; rfl
+  · intro h
+    cases p; cases q
+    simp only [VectorPyx.v2hashArg, Prod.mk.injEq] at h
+    obtain ⟨h1, h2⟩ := h
+    subst h1 h2; rfl
+
+/-! ## 19. Matrix44 as a state machine: in-place operations on one object -/
+
+/-- the Python-twin machine (NumPy stand-ins) and the Cython machine (regenerated kernels) are the same function -/
+theorem m44_machine_twins (s : M44) (op : M44Machine.Op) : M44Machine.stepPy s op = M44Machine.step s op := by
+  cases op with
+  | imul o => rfl
+  | imulSelf => rfl
+  | transpose => rfl
+  | inverse => simp only [M44Machine.stepPy, M44Machine.step, inverse_is_textbook]
+
+/-- the determinant of the object after ANY history of `*=`, `m *= m`, `transpose()`, `inverse()` calls: multiply,
+    square, keep, invert - a failing `inverse()` (determinant 0) changes nothing -/
+theorem m44_history_det (s : M44) (ops : List M44Machine.Op) :
+    M44.det (M44Machine.run s ops) = ops.foldl M44Machine.detStep (M44.det s) := by
+  induction ops generalizing s with
+  | nil => rfl
+  | cons op rest ih =>
+    show M44.det (M44Machine.run (M44Machine.step s op) rest) = _
+    rw [ih]
+    simp only [List.foldl_cons]
+    congr 1
+    cases op with
+    | imul o => exact det_mul s o
+    | imulSelf => exact det_mul s s
+    | transpose => exact (transpose_laws s s).2.1
+    | inverse =>
+      simp only [M44Machine.step, M44Machine.detStep]
+      rcases inverse_total s with ⟨h0, he⟩ | ⟨h0, i, hi, _, hr, _⟩
+      · rw [he]; rw [determinant_is_textbook] at h0; simp [h0]
+      · rw [hi]
+        rw [determinant_is_textbook] at h0
+        have : M44.det s * M44.det i = 1 := by rw [← det_mul, hr, det_identity]
+        simp only [if_neg h0]
+        field_simp
+        linarith
+
+/-- `inverse()` twice and `transpose()` twice give the object back - for EVERY matrix (a singular one raises twice
+    and is never touched); inverting after `*= o` is o⁻¹·m⁻¹ -/
+theorem m44_history_undo (s o : M44) :
+    M44Machine.run s [.inverse, .inverse] = s ∧ M44Machine.run s [.transpose, .transpose] = s
+    ∧ (Matrix44Pyx.determinant s ≠ 0 → Matrix44Pyx.determinant o ≠ 0 →
+        M44Machine.run s [.imul o, .inverse] = M44.mul (invOr o) (invOr s)) := by
+  refine ⟨?_, rfl, ?_⟩
+  · simp only [M44Machine.run, List.foldl_cons, List.foldl_nil, M44Machine.step]
+    rcases inverse_total s with ⟨h0, he⟩ | ⟨h0, i, hi, _, _, _⟩
+    · rw [he]; simp only [he]
+    · obtain ⟨i', hi', hii, _⟩ := inverse_laws s h0
+      rw [hi] at hi'; cases hi'
+      rw [hi]; simp only [hii]
+  · intro hs ho
+    obtain ⟨is_, io, his, hio, hprod⟩ := inverse_mul s o hs ho
+    simp only [M44Machine.run, List.foldl_cons, List.foldl_nil, M44Machine.step]
+    have : Matrix44Pyx.imul s o = Matrix44Pyx.mul s o := rfl
+    rw [this, hprod]
+    have e1 : invOr s = is_ := by
+      have := inverse_is_textbook s; rw [his] at this; simp only [invOr, ← this]
+    have e2 : invOr o = io := by
+      have := inverse_is_textbook o; rw [hio] at this; simp only [invOr, ← this]
+    rw [e1, e2]
+
+example : M44Machine.run ⟨1, 2, 0, 0, 3, 1, 0, 0, 0, 0, 1, 0, 4, 5, 6, 1⟩ [.imulSelf, .transpose, .inverse, .inverse, .transpose]
+    = ⟨7, 4, 0, 0, 6, 7, 0, 0, 0, 0, 1, 0, 23, 18, 12, 1⟩ := by decide +kernel
+
+/-! ## 20. Accessors and the normalising direction transform -/
+
+/-- `get_row(i)` / `get_col(i)` read rows of the matrix / of its transpose; `get_2d_transformation` undoes
+    `from_2d_transformation`; both twins -/
+theorem accessors_spec (m : M44) (a b c d e f : Rat) :
+    Matrix44Pyx.getRow m = ((m.m0, m.m1, m.m2, m.m3), (m.m4, m.m5, m.m6, m.m7), (m.m8, m.m9, m.m10, m.m11), (m.m12, m.m13, m.m14, m.m15))
+    ∧ Matrix44Pyx.getCol m = Matrix44Pyx.getRow (M44.transpose m)
+    ∧ Matrix44Pyx.get2d (Matrix44Pyx.from2d a b c d e f) = (a, b, 0, c, d, 0, e, f, 1)
+    ∧ Matrix44Py.getRow = Matrix44Pyx.getRow ∧ Matrix44Py.getCol = Matrix44Pyx.getCol ∧ Matrix44Py.get2d = Matrix44Pyx.get2d :=
+  ⟨rfl, rfl, rfl, rfl, rfl, rfl⟩
+
+/-- `transform_direction(v, normalize=True)`: the transformed direction divided by its length r: unit length, parallel
+    to the plain `transform_direction`; a direction that is mapped to the null vector raises ZeroDivisionError -/
+theorem transform_direction_normalized (m : M44) (v : V3) (r : Rat) (hr : r * r = Matrix44Pyx.transformDirectionN_rad1 m v) :
+    (r = 0 → Matrix44Pyx.transformDirectionN m v r = .error .zeroDivision)
+    ∧ (r ≠ 0 → ∃ u, Matrix44Pyx.transformDirectionN m v r = .ok u ∧ Matrix44Py.transformDirectionN m v r = .ok u
+        ∧ u = V3.smul (1 / r) (Matrix44Pyx.transformDirection m v) ∧ V3.dot u u = 1) := by
+  simp only [Matrix44Pyx.transformDirectionN_rad1] at hr
+  constructor
+  · intro h; simp [Matrix44Pyx.transformDirectionN, h]
+  · intro h
+    refine ⟨_, by simp only [Matrix44Pyx.transformDirectionN, if_neg h]; rfl,
+      by simp only [Matrix44Py.transformDirectionN, if_neg h], ?_, ?_⟩
+    · simp only [V3.smul, Matrix44Pyx.transformDirection, V3.mk.injEq]; refine ⟨?_, ?_, ?_⟩ <;> ring
+    · simp only [V3.dot]; field_simp; linarith
+
+/-- truth value of a vector: `bool(v)` is `not v.is_null` (all |components| ≤ 1e-12 ⇒ False) in both twins, 2-D and 3-D;
+    `k * p = p * k` for Vec2 -/
+theorem bool_spec (a : V3) (p : V2) (k : Rat) :
+    VectorPyx.v3bool a = !VectorPyx.v3isnull a ∧ VectorPy.v3bool a = !VectorPyx.v3isnull a
+    ∧ VectorPyx.v2bool p = !VectorPyx.v2isnull p ∧ VectorPy.v2bool p = !VectorPyx.v2isnull p
+    ∧ VectorPyx.v3bool ⟨0, 0, 0⟩ = false ∧ VectorPyx.v2bool ⟨0, 0⟩ = false
+    ∧ VectorPyx.v2rmul p k = VectorPyx.v2mul p k ∧ VectorPy.v2rmul p k = VectorPyx.v2mul p k := by
+  exact ⟨rfl, rfl, rfl, rfl, by decide +kernel, by decide +kernel, rfl, rfl⟩
+
+/-! ## 21. copy() and the cartesian predicate on the results of the factories -/
+
+/-- `UCS.copy()`: a new UCS from (origin, ux, uy, uz) - each axis row divided by its own length, the 4th column reset
+    to (0, 0, 0, 1) ("scaling gets lost by copying", docstring); a null axis raises; the copy of a CARTESIAN UCS is the
+    UCS itself (all three roots are 1) -/
+theorem ucs_copy_spec (s : M44) (r1 r2 r3 : Rat) :
+    ((r1 = 0 ∨ r2 = 0 ∨ r3 = 0) → UcsPyx.ucsCopy s r1 r2 r3 = .error .zeroDivision)
+    ∧ (r1 ≠ 0 → r2 ≠ 0 → r3 ≠ 0 →
+        UcsPyx.ucsCopy s r1 r2 r3 = .ok (Matrix44Pyx.ucs (V3.smul (1 / r1) s.ux) (V3.smul (1 / r2) s.uy) (V3.smul (1 / r3) s.uz) s.origin)
+        ∧ UcsPy.ucsCopy s r1 r2 r3 = UcsPyx.ucsCopy s r1 r2 r3)
+    ∧ (IsRigid s → UcsPyx.ucsCopy_rad1 s = 1 ∧ UcsPyx.ucsCopy_rad2 s 1 = 1 ∧ UcsPyx.ucsCopy_rad3 s 1 1 = 1
+        ∧ UcsPyx.ucsCopy s 1 1 1 = .ok s) := by
+  refine ⟨?_, ?_, ?_⟩
+  · rintro (h | h | h)
+    · simp [UcsPyx.ucsCopy, h]
+    · by_cases h1 : r1 = 0 <;> simp [UcsPyx.ucsCopy, h, h1]
+    · by_cases h1 : r1 = 0 <;> by_cases h2 : r2 = 0 <;> simp [UcsPyx.ucsCopy, h, h1, h2]
+  · intro n1 n2 n3
+    refine ⟨?_, rfl⟩
+    simp only [UcsPyx.ucsCopy, if_neg n1, if_neg n2, if_neg n3, Matrix44Pyx.ucs, V3.smul, M44.ux, M44.uy, M44.uz, M44.origin,
+      Except.ok.injEq, M44.mk.injEq]
+    refine ⟨?_, ?_, ?_, ?_, ?_, ?_, ?_, ?_, ?_, ?_, ?_, ?_, ?_, ?_, ?_, ?_⟩ <;> first | trivial | ring
+  · rintro ⟨⟨h3, h7, h11, h15⟩, hxx, hyy, hzz, _, _, _⟩
+    simp only [V3.dot, M44.ux, M44.uy, M44.uz] at hxx hyy hzz
+    refine ⟨hxx, hyy, hzz, ?_⟩
+    have one : (1 : Rat) ≠ 0 := one_ne_zero
+    simp only [UcsPyx.ucsCopy, if_neg one, Except.ok.injEq]
+    cases s
+    simp only at h3 h7 h11 h15
+    subst h3 h7 h11 h15
+    simp
+
+/-- the results of `rotate` / `rotate_local_z` of a right-handed cartesian UCS answer `is_cartesian` with True -/
+theorem ucs_rotate_is_cartesian (s : M44) (axis : V3) (c sn r1 : Rat) (hs : IsRigid s) (hdet : M44.det s = 1)
+    (hcs : c * c + sn * sn = 1) (hr : r1 * r1 = Matrix44Pyx.axisRotate_rad1 axis c sn) (hr0 : r1 ≠ 0) :
+    (∃ m, UcsPyx.ucsRotate s axis c sn r1 1 1 1 = .ok m ∧ UcsPyx.ucsIsCartesian m 1 1 = .ok true
+        ∧ V3.cross m.ux m.uy = m.uz)
+    ∧ (∃ m, UcsPyx.ucsRotateLocalZ s c sn 1 1 1 = .ok m ∧ UcsPyx.ucsIsCartesian m 1 1 = .ok true
+        ∧ V3.cross m.ux m.uy = m.uz) := by
+  obtain ⟨h1, _, h2⟩ := ucs_rotate_cartesian s axis c sn r1 hs hcs
+  constructor
+  · obtain ⟨_, m, _, _, _, _, hm, _, _, _, _, _, hrig, hd⟩ := h1 hr hr0
+    have hx : V3.cross m.ux m.uy = m.uz := by
+      rw [(rigid_handedness m hrig).1, hd, hdet]; cases m; simp [V3.smul, M44.uz]
+    refine ⟨m, hm, ?_, hx⟩
+    rw [(frame_predicates_spec m 1 1 1).2.2.2.1]
+    exact ((frame_predicates_spec m 1 1 1).2.2.1 hrig hx).1
+  · obtain ⟨_, m, _, _, _, hm, _, _, _, _, _, hrig, hd⟩ := h2
+    have hx : V3.cross m.ux m.uy = m.uz := by
+      rw [(rigid_handedness m hrig).1, hd, hdet]; cases m; simp [V3.smul, M44.uz]
+    refine ⟨m, hm, ?_, hx⟩
+    rw [(frame_predicates_spec m 1 1 1).2.2.2.1]
+    exact ((frame_predicates_spec m 1 1 1).2.2.1 hrig hx).1
+
+set_option maxRecDepth 4000 in
+/-- `rotate_local_x` / `rotate_local_y` of a CARTESIAN UCS: the own axis is kept, the other two are the rows of s·R,
+    all roots are 1, the result is cartesian with the origin and the handedness of s (z: `ucs_rotate_cartesian`) -/
+theorem ucs_rotate_local_xy_cartesian (s : M44) (c sn : Rat) (hs : IsRigid s) (hcs : c * c + sn * sn = 1) :
+    (Matrix44Pyx.axisRotate_rad1 s.ux c sn = 1
+      ∧ ∃ R m, Matrix44Pyx.axisRotate s.ux c sn 1 = .ok R
+        ∧ UcsPyx.ucsRotateLocalX_rad2 s c sn 1 = 1 ∧ UcsPyx.ucsRotateLocalX_rad3 s c sn 1 1 = 1
+        ∧ UcsPyx.ucsRotateLocalX s c sn 1 1 1 = .ok m ∧ UcsPy.ucsRotateLocalX s c sn 1 1 1 = .ok m
+        ∧ m.origin = s.origin ∧ m.ux = s.ux ∧ m.uy = (M44.mul s R).uy ∧ m.uz = (M44.mul s R).uz
+        ∧ IsRigid m ∧ M44.det m = M44.det s)
+    ∧ (Matrix44Pyx.axisRotate_rad1 s.uy c sn = 1
+      ∧ ∃ R m, Matrix44Pyx.axisRotate s.uy c sn 1 = .ok R
+        ∧ UcsPyx.ucsRotateLocalY_rad2 s c sn 1 = 1 ∧ UcsPyx.ucsRotateLocalY_rad3 s c sn 1 1 = 1
+        ∧ UcsPyx.ucsRotateLocalY s c sn 1 1 1 = .ok m ∧ UcsPy.ucsRotateLocalY s c sn 1 1 1 = .ok m
+        ∧ m.origin = s.origin ∧ m.uy = s.uy ∧ m.ux = (M44.mul s R).ux ∧ m.uz = (M44.mul s R).uz
+        ∧ IsRigid m ∧ M44.det m = M44.det s) := by
+  have one : (1 : Rat) ≠ 0 := one_ne_zero
+  have h3 := hs.1.1
+  have h7 := hs.1.2.1
+  have h11 := hs.1.2.2.1
+  constructor
+  · have hxx : Matrix44Pyx.axisRotate_rad1 s.ux c sn = 1 := by
+      have := hs.2.1
+      simp only [V3.dot] at this
+      simp only [Matrix44Pyx.axisRotate_rad1]; exact this
+    refine ⟨hxx, ?_⟩
+    obtain ⟨R, hR, hRT, hRdet, hRa, hfix, _⟩ := axis_rotate_spec s.ux c sn 1 hcs (by rw [hxx]; ring) one
+    have hRr : IsRigid R := rigid_of_mul_transpose R hRa hRT
+    have hP : IsRigid (M44.mul s R) :=
+      ucs_history_rigid s [Op.transform R] hs (by intro op hop; simp only [List.mem_singleton] at hop; subst hop; exact hRr)
+    have hdetP : M44.det (M44.mul s R) = M44.det s := by rw [det_mul, hRdet, mul_one]
+    obtain ⟨_, ⟨R', hR', hk, hk'⟩, _, _⟩ := ucs_rotate_structure s s.ux c sn 1 1 1 1 h3 h7 h11 one one one one
+    rw [hR] at hR'; cases hR'
+    rw [smul_one', smul_one', smul_one'] at hk
+    have hz : (M44.mul s R).ux = s.ux := by
+      have h0 : R.m12 = 0 ∧ R.m13 = 0 ∧ R.m14 = 0 := by
+        have hRe := hR
+        simp only [Matrix44Pyx.axisRotate, if_neg one, Except.ok.injEq] at hRe
+        rw [← hRe]; exact ⟨rfl, rfl, rfl⟩
+      simp only [Matrix44Pyx.transform, M44.ux, V3.mk.injEq] at hfix
+      obtain ⟨f1, f2, f3⟩ := hfix
+      simp only [M44.ux, M44.mul, V3.mk.injEq, h3]
+      refine ⟨by linear_combination f1 - h0.1, by linear_combination f2 - h0.2.1, by linear_combination f3 - h0.2.2⟩
+    rw [← hz] at hk
+    obtain ⟨hm1, hm2⟩ := rigid_ucs_rows (M44.mul s R) s.origin hP
+    have hRe := hR
+    simp only [Matrix44Pyx.axisRotate, if_neg one, Except.ok.injEq] at hRe
+    obtain ⟨_, _, pyy, pzz, _, _, _⟩ := hP
+    refine ⟨R, _, hR, ?_, ?_, hk, by rw [hk', hk], rfl, hz, rfl, rfl, hm1, by rw [hm2, hdetP]⟩
+    · refine Eq.trans ?_ pyy; rw [← hRe]; simp only [UcsPyx.ucsRotateLocalX_rad2, V3.dot, M44.ux, M44.uy, M44.mul]; ring
+    · refine Eq.trans ?_ pzz; rw [← hRe]; simp only [UcsPyx.ucsRotateLocalX_rad3, V3.dot, M44.ux, M44.uz, M44.mul]; ring
+  · have hyy : Matrix44Pyx.axisRotate_rad1 s.uy c sn = 1 := by
+      have := hs.2.2.1
+      simp only [V3.dot] at this
+      simp only [Matrix44Pyx.axisRotate_rad1]; exact this
+    refine ⟨hyy, ?_⟩
+    obtain ⟨R, hR, hRT, hRdet, hRa, hfix, _⟩ := axis_rotate_spec s.uy c sn 1 hcs (by rw [hyy]; ring) one
+    have hRr : IsRigid R := rigid_of_mul_transpose R hRa hRT
+    have hP : IsRigid (M44.mul s R) :=
+      ucs_history_rigid s [Op.transform R] hs (by intro op hop; simp only [List.mem_singleton] at hop; subst hop; exact hRr)
+    have hdetP : M44.det (M44.mul s R) = M44.det s := by rw [det_mul, hRdet, mul_one]
+    obtain ⟨_, _, ⟨R', hR', hk, hk'⟩, _⟩ := ucs_rotate_structure s s.uy c sn 1 1 1 1 h3 h7 h11 one one one one
+    rw [hR] at hR'; cases hR'
+    rw [smul_one', smul_one', smul_one'] at hk
+    have hz : (M44.mul s R).uy = s.uy := by
+      have h0 : R.m12 = 0 ∧ R.m13 = 0 ∧ R.m14 = 0 := by
+        have hRe := hR
+        simp only [Matrix44Pyx.axisRotate, if_neg one, Except.ok.injEq] at hRe
+        rw [← hRe]; exact ⟨rfl, rfl, rfl⟩
+      simp only [Matrix44Pyx.transform, M44.uy, V3.mk.injEq] at hfix
+      obtain ⟨f1, f2, f3⟩ := hfix
+      simp only [M44.uy, M44.mul, V3.mk.injEq, h7]
+      refine ⟨by linear_combination f1 - h0.1, by linear_combination f2 - h0.2.1, by linear_combination f3 - h0.2.2⟩
+    rw [← hz] at hk
+    obtain ⟨hm1, hm2⟩ := rigid_ucs_rows (M44.mul s R) s.origin hP
+    have hRe := hR
+    simp only [Matrix44Pyx.axisRotate, if_neg one, Except.ok.injEq] at hRe
+    obtain ⟨_, pxx, _, pzz, _, _, _⟩ := hP
+    refine ⟨R, _, hR, ?_, ?_, hk, by rw [hk', hk], rfl, hz, rfl, rfl, hm1, by rw [hm2, hdetP]⟩
+    · refine Eq.trans ?_ pxx; rw [← hRe]; simp only [UcsPyx.ucsRotateLocalY_rad2, V3.dot, M44.ux, M44.uy, M44.mul]; ring
+    · refine Eq.trans ?_ pzz; rw [← hRe]; simp only [UcsPyx.ucsRotateLocalY_rad3, V3.dot, M44.uy, M44.uz, M44.mul]; ring
+
+/-! ## 22. `UCS(origin, ux, uy, uz)` with axes of ANY length -/
+
+/-- all three axes given ("unit vectors don't have to be normalized, normalization is done at initialization"):
+    whatever the lengths r1, r2, r3 > 0 of the given axes, the stored axes are unit vectors parallel to them; if the
+    given axes are pairwise perpendicular the UCS is orthonormal and `from_wcs` / `to_wcs` are mutually inverse
+    (points and directions); the stored frame does not depend on the lengths of the given axes -/
+theorem ucs_init_xyz_normalizes (o a b c p : V3) (r1 r2 r3 : Rat) (h1 : 0 < r1) (h2 : 0 < r2) (h3 : 0 < r3)
+    (e1 : r1 * r1 = UcsPyx.ucsInitXYZ_rad1 o a b c) (e2 : r2 * r2 = UcsPyx.ucsInitXYZ_rad2 o a b c r1)
+    (e3 : r3 * r3 = UcsPyx.ucsInitXYZ_rad3 o a b c r1 r2) :
+    ∃ m, UcsPyx.ucsInitXYZ o a b c r1 r2 r3 = .ok m ∧ UcsPy.ucsInitXYZ o a b c r1 r2 r3 = .ok m
+      ∧ m.origin = o ∧ M44.IsAffine m
+      ∧ V3.dot m.ux m.ux = 1 ∧ V3.dot m.uy m.uy = 1 ∧ V3.dot m.uz m.uz = 1
+      ∧ m.ux = V3.smul (1 / r1) a ∧ m.uy = V3.smul (1 / r2) b ∧ m.uz = V3.smul (1 / r3) c
+      ∧ (V3.dot a b = 0 → V3.dot a c = 0 → V3.dot b c = 0 →
+          Orthonormal m
+          ∧ UcsPyx.ucsFromWcs m (UcsPyx.ucsToWcs m p) = p ∧ UcsPyx.ucsToWcs m (UcsPyx.ucsFromWcs m p) = p
+          ∧ UcsPyx.ucsDirectionFromWcs m (UcsPyx.ucsDirectionToWcs m p) = p)
+      ∧ (∀ k1 k2 k3 : Rat, 0 < k1 → 0 < k2 → 0 < k3 →
+          UcsPyx.ucsInitXYZ o (V3.smul k1 a) (V3.smul k2 b) (V3.smul k3 c) (k1 * r1) (k2 * r2) (k3 * r3) = .ok m) := by
+  have n1 : r1 ≠ 0 := ne_of_gt h1
+  have n2 : r2 ≠ 0 := ne_of_gt h2
+  have n3 : r3 ≠ 0 := ne_of_gt h3
+  obtain ⟨⟨m, hm, hm', ho, hx, hy, hz⟩, _, _⟩ := ucs_init_rows o a b c r1 r2 r3 n1 n2 n3
+  simp only [UcsPyx.ucsInitXYZ_rad1, UcsPyx.ucsInitXYZ_rad2, UcsPyx.ucsInitXYZ_rad3] at e1 e2 e3
+  have hxx : V3.dot m.ux m.ux = 1 := by rw [hx]; simp only [V3.dot, V3.smul]; field_simp; linarith
+  have hyy : V3.dot m.uy m.uy = 1 := by rw [hy]; simp only [V3.dot, V3.smul]; field_simp; linarith
+  have hzz : V3.dot m.uz m.uz = 1 := by rw [hz]; simp only [V3.dot, V3.smul]; field_simp; linarith
+  have haff : M44.IsAffine m := by
+    have := hm
+    simp only [UcsPyx.ucsInitXYZ, if_neg n1, if_neg n2, if_neg n3, Except.ok.injEq] at this
+    rw [← this]; simp [M44.IsAffine]
+  refine ⟨m, hm, hm', ho, haff, hxx, hyy, hzz, hx, hy, hz, ?_, ?_⟩
+  · intro hab hac hbc
+    have hon : Orthonormal m := by
+      refine ⟨hxx, hyy, hzz, ?_, ?_, ?_⟩
+      · rw [hx, hy]; simp only [V3.dot, V3.smul] at hab ⊢; field_simp; linarith
+      · rw [hx, hz]; simp only [V3.dot, V3.smul] at hac ⊢; field_simp; linarith
+      · rw [hy, hz]; simp only [V3.dot, V3.smul] at hbc ⊢; field_simp; linarith
+    obtain ⟨r1', r2', r3', _⟩ := ucs_roundtrip m hon p
+    exact ⟨hon, r1', r2', r3'⟩
+  · intro k1 k2 k3 hk1 hk2 hk3
+    have nk1 : k1 * r1 ≠ 0 := mul_ne_zero (ne_of_gt hk1) n1
+    have nk2 : k2 * r2 ≠ 0 := mul_ne_zero (ne_of_gt hk2) n2
+    have nk3 : k3 * r3 ≠ 0 := mul_ne_zero (ne_of_gt hk3) n3
+    have hk1' := ne_of_gt hk1
+    have hk2' := ne_of_gt hk2
+    have hk3' := ne_of_gt hk3
+    have hm2 := hm
+    simp only [UcsPyx.ucsInitXYZ, if_neg n1, if_neg n2, if_neg n3, Except.ok.injEq] at hm2
+    simp only [UcsPyx.ucsInitXYZ, if_neg nk1, if_neg nk2, if_neg nk3, Except.ok.injEq, V3.smul]
+    rw [← hm2]
+    simp only [M44.mk.injEq]
+    refine ⟨?_, ?_, ?_, ?_, ?_, ?_, ?_, ?_, ?_, ?_, ?_, ?_, ?_, ?_, ?_, ?_⟩ <;> first | trivial | (field_simp)
+
+example : UcsPyx.ucsInitXYZ ⟨1, 2, 3⟩ ⟨2, 0, 0⟩ ⟨0, 3, 0⟩ ⟨0, 0, 1/2⟩ 2 3 (1/2) = .ok ⟨1, 0, 0, 0, 0, 1, 0, 0, 0, 0, 1, 0, 1, 2, 3, 1⟩ := by
+  decide +kernel
+
+/-- the assumption boundary of the pure-Python twin, regenerated: the six NumPy-form methods of `Matrix44` are EXACTLY the
+    single NumPy calls (np.matmul, ndarray.T, np.linalg.det, np.linalg.inv with LinAlgError -> ZeroDivisionError) that the
+    textbook algebra of Model/Rat3.lean stands for; any other code in these methods (a fast path, a guard, a threshold) is
+    not covered by that assumption and makes this theorem false -/
+theorem py_numpy_forms :
+    UcsAttrs.pyNumpyForms = [
+      ("__mul__", "m1 = self._matrix.reshape(4, 4); m2 = other._matrix.reshape(4, 4); result = np.matmul(m1, m2); return self.__class__(np.ravel(result))"),
+      ("__imul__", "m1 = self._matrix.reshape(4, 4); m2 = other._matrix.reshape(4, 4); result = np.matmul(m1, m2); self._matrix = np.ravel(result); return self"),
+      ("__matmul__", "m1 = self._matrix.reshape(4, 4); m2 = other._matrix.reshape(4, 4); result = np.matmul(m1, m2); return self.__class__(np.ravel(result))"),
+      ("transpose", "m = self._matrix.reshape(4, 4); self._matrix = np.ravel(m.T)"),
+      ("determinant", "return np.linalg.det(self._matrix.reshape(4, 4))"),
+      ("inverse", "try:     inverse = np.linalg.inv(self._matrix.reshape(4, 4)) except np.linalg.LinAlgError:     raise ZeroDivisionError; self._matrix = np.ravel(inverse)")] := by
+  decide +kernel
 
 end EzdxfVerif.Props.C11
